@@ -1,12 +1,29 @@
-(** C03 — compile_correct with ASSIGNMENTS, BOXES, INTERNAL DEFINES, CLOSURES AND CALLS TOGETHER.
+(** C03 — compile_correct with ASSIGNMENTS (LOCALS AND GLOBALS), BOXES, INTERNAL DEFINES, CLOSURES, CALLS AND REST
+    PARAMETERS TOGETHER.
 
-    Fragment [fragA] (fixed-arity lambdas): literals, global references, references to variables of the current
-    frame (parameters and internal defines) and to free variables listed in the current lambda's fv, set! of such
-    variables (they are in their owner's sv list, i.e. boxed), if, begin (incl. generate_drop_prev's rewind after a
-    non-final set!), the inlined opcodes except eq?, lambda expressions with parameters, internal defines (locals),
-    sv = the global assignment table SV, any fetchable fv list, applications (CALL / TAIL-CALL).  This is the language
-    of named let, letrec, internal defines, do loops, counters.  Not included here: rest parameters (SimRest.v /
-    SimClos.v), set! of globals (SimBoxes.v), eq? on pairs, error outcomes.
+    Fragment [fragA]: literals, global references, references to variables of the current frame (parameters, the rest
+    parameter, internal defines) and to free variables listed in the current lambda's fv, set! of such variables (they
+    are in their owner's sv list, i.e. boxed), set! / define of GLOBALS anywhere ([SetV x Global e]: PUSH the cell,
+    SET-CDR = [assoc_set] on the VM globals, [glob_set] in the SPEC), if, begin (incl. generate_drop_prev's rewind after a non-final set!), the
+    inlined opcodes except eq?, lambda expressions with parameters, an optional REST PARAMETER (it may be assigned, hence
+    boxed by the entry code like any parameter, and captured by inner closures), internal defines (locals), sv = the
+    global assignment table SV, any fetchable fv list, applications (CALL / TAIL-CALL) through all three argument
+    protocols of make_call (vm.c:1305-1356): exact arity; rest list consed from the surplus arguments ('() inserted when
+    there are none); UNUSED_REST (flag set by [lam_flags] when [rest_unused true id r body]): the surplus arguments stay
+    on the stack, the frame header records the real argument count and RET / TAIL-CALL pop them.  This is the language
+    of named let, letrec, internal defines, do loops, counters, variadic procedures, writer procedures for globals.
+    Not included here: eq? on pairs, error outcomes (SimErr.v).
+
+    GLOBALS are looked up by name at run time on both sides (no closure captures one, the world holds none): the
+    relation [globrel W sg gl] (every SPEC global has a VM global representing it) is a separate hypothesis of the
+    simulation and every result re-establishes it for the final VM globals gl' ([resA], [fallH] / [retH] carry gl' as
+    they carry the final heap); [globrel_mono] along [wext], [globrel_set] for an assignment.
+
+    A rest parameter flagged UNUSED_REST has NO slot in the VM frame while the SPEC binds it to a location.  The current
+    lambda's context therefore carries the LIVE rest parameter [live_of id r body] ([] when flagged): [resolvableA],
+    [env_okA] and the sv condition speak about the variables that have a slot (ps ++ live ++ ls), the SPEC frame is
+    [frame_vars ps r ls].  By [Proofs.rest_unused_sound] a flagged rest parameter is never mentioned in the body
+    ([dead_rest_not_mentioned]), so the analyser's output never fails [fragA] for that reason.
 
     Boxes are shared between frames and closure vectors and are mutated, SPEC locations are assigned: the simulation
     relation is indexed by a WORLD (heap, SPEC cells, partial injection location -> box address):
@@ -15,10 +32,12 @@
       wext W W'    only box contents / boxed locations change, new cells and new boxes are fresh; refl, trans,
                    every relation is monotone along it
       WINV W       every box holds a value representing the content of its location; wb is injective; bounds
-      env_okA      frame slots (varrel), the closure vector (fvrelW), globals
+      env_okA      frame slots (varrel), the closure vector (fvrelW)
     Entry code of a procedure (PUSH undef per local; LOCAL-REF, PUSH name, CONS, LOCAL-SET per sv variable): [box_loop]
     (distinct slots by param_index_injective), world [wenter] ([wenter_ext], [wenter_INV]); assignment = [wset];
-    allocation of pairs / vectors = [walloc].  Main theorem [simA_all] by strong induction on the SPEC's fuel. *)
+    allocation of pairs / vectors = [walloc]; the rest list consed by make_call = [build_list_relW] (walloc steps);
+    the call itself = [call_closedA] (SimRest.make_call_protocol).  Main theorem [simA_all] by strong induction on the
+    SPEC's fuel. *)
 From Coq Require Import ZArith List Bool Arith Lia.
 From ChibiV Require Import C03.Defs C03.Model C03.Spec C03.Proofs C03.Simulation C03.SimCalls C03.SimBoxes C03.SimRest C03.SimClos.
 Import ListNotations.
@@ -39,15 +58,20 @@ Section Full.
 
   (* ---------------------------------------------------------------- the fragment *)
 
-  (** current lambda: id, parameters, internal defines, free-variable list *)
-  Definition fctxA := option (nat * list name * list name * list vref).
+  (** current lambda: id, parameters, rest parameter, LIVE rest parameter ([] when there is none or when the procedure
+      is flagged UNUSED_REST: the VM then has no slot for it), internal defines, free-variable list *)
+  Definition fctxA := option (nat * list name * option name * list name * list name * list vref).
 
   Definition lctxA (cur : fctxA) : option lctx :=
-    match cur with Some (id, ps, ls, fv) => Some (mk_lctx id ps None ls fv) | None => None end.
+    match cur with Some (id, ps, r, lr, ls, fv) => Some (mk_lctx id ps r ls fv) | None => None end.
+
+  (** the rest parameter when it has a slot (vm.c:718-720, make_call): not flagged UNUSED_REST *)
+  Definition live_of (id : nat) (r : option name) (b : ast) : list name :=
+    if rest_unused true id r b then [] else rest_list r.
 
   Definition resolvableA (cur : fctxA) (x : name) (m : nat) : bool :=
     match cur with
-    | Some (id, ps, ls, fv) => if Nat.eqb m id then memn x (ps ++ ls) else in_fv (x, Local m) fv
+    | Some (id, ps, r, lr, ls, fv) => if Nat.eqb m id then memn x (ps ++ lr ++ ls) else in_fv (x, Local m) fv
     | None => false
     end.
 
@@ -70,27 +94,31 @@ Section Full.
     apply andb_true_iff in H. destruct H as [H1 H2]. apply Nat.eqb_eq in H1. f_equal; auto.
   Qed.
 
+  (** A variable without a slot (the rest parameter of a procedure flagged UNUSED_REST) is not resolvable; by
+      [Proofs.rest_unused_sound] the flag is only set when the body never mentions it, so this excludes nothing the
+      analyser produces. *)
   Fixpoint fragA (cur : fctxA) (e : ast) {struct e} : bool :=
     match e with
     | Lit _ => true
     | Ref x Global => true
     | Ref x (Local m) => resolvableA cur x m
     | SetV x (Local m) v => resolvableA cur x m && boxedv x m && fragA cur v
-    | SetV x Global v => false
+    | SetV x Global v => fragA cur v
     | Cnd t p f => fragA cur t && fragA cur p && fragA cur f
     | Seq es => match es with [] => false | _ :: _ => forallb (fragA cur) es end
     | OpApp p args => pure_prim p && Nat.eqb (length args) (prim_arity p) && forallb (fragA cur) args
-    | Lam id ps None ls sv fv b =>
-        nodupb (ps ++ ls) && names_eqb sv (SV id) && nodupb sv && forallb (fun x => memn x (ps ++ ls)) sv
-        && fv_okA cur id fv && fragA (Some (id, ps, ls, fv)) b
-    | Lam _ _ (Some _) _ _ _ _ => false
+    | Lam id ps r ls sv fv b =>
+        nodupb (frame_vars ps r ls) && names_eqb sv (SV id) && nodupb sv
+        && forallb (fun x => memn x (ps ++ live_of id r b ++ ls)) sv
+        && fv_okA cur id fv && fragA (Some (id, ps, r, live_of id r b, ls, fv)) b
     | App f args => fragA cur f && forallb (fragA cur) args
     end.
 
   (** entry code of a lambda (vm.c generate_lambda): locals, boxing of sv, body, RET *)
-  Definition entryA (svs : nat -> list name) (id : nat) (ps ls : list name) (fv : list vref) (b : ast) : code :=
-    repeat (IPush LUndef) (length ls) ++ box_code ps None ls (SV id)
-    ++ generate true svs (Some (mk_lctx id ps None ls fv)) b ++ [IRet].
+  Definition entryA (svs : nat -> list name) (id : nat) (ps : list name) (r : option name) (ls : list name)
+             (fv : list vref) (b : ast) : code :=
+    repeat (IPush LUndef) (length ls) ++ box_code ps r ls (SV id)
+    ++ generate true svs (Some (mk_lctx id ps r ls fv)) b ++ [IRet].
 
   (* ---------------------------------------------------------------- values in a world *)
 
@@ -105,11 +133,11 @@ Section Full.
   | VW_pair : forall a vx vy x y,
       nth_error (wh W) a = Some (HPair vx vy) -> ~ is_box W a -> vrelW W vx x -> vrelW W vy y ->
       vrelW W (VPair a) (SPair x y)
-  | VW_clo : forall id ps ls b cenv fv svs' vars els,
-      nodupb (ps ++ ls) = true ->
+  | VW_clo : forall id ps r ls b cenv fv svs' vars els,
+      nodupb (frame_vars ps r ls) = true ->
       nodupb (SV id) = true ->
-      forallb (fun x => memn x (ps ++ ls)) (SV id) = true ->
-      fragA (Some (id, ps, ls, fv)) b = true ->
+      forallb (fun x => memn x (ps ++ live_of id r b ++ ls)) (SV id) = true ->
+      fragA (Some (id, ps, r, live_of id r b, ls, fv)) b = true ->
       agrees svs' ->
       (forall p, In p fv -> exists m, snd p = Local m /\ m <> id) ->
       vec_ok W fv vars els ->
@@ -117,7 +145,7 @@ Section Full.
                  ((boxedv (fst p) m = true /\ exists bx, v = VPair bx /\ wb W loc = Some bx)
                   \/ (boxedv (fst p) m = false /\ wb W loc = None /\
                       exists w, nth_error (wc W) loc = Some w /\ vrelW W v w))) fv els ->
-      vrelW W (VProc 0 (length ps) (entryA svs' id ps ls fv b) vars) (SClo id ps None ls b cenv).
+      vrelW W (VProc (lam_flags id r b) (length ps) (entryA svs' id ps r ls fv b) vars) (SClo id ps r ls b cenv).
 
   (** how a variable p of SPEC location loc is represented by the VM value v (slot content / vector element) *)
   Definition varrel (W : world) (p : vref) (loc : nat) (v : value) : Prop :=
@@ -188,7 +216,7 @@ Section Full.
   Lemma vrelW_mono : forall W W', wbounds W -> wext W W' -> forall v w, vrelW W v w -> vrelW W' v w.
   Proof.
     intros W W' HB HE. pose proof HE as (L1 & H2 & L3 & H4 & H5 & H6). fix IH 3. intros v w H.
-    destruct H as [l | a vx vy x y Hn Hnb H1 H2' | id ps ls b cenv fv svs' vars els Hnd Hndsv Hsvin Hfr Hag Hown Hvec HF].
+    destruct H as [l | a vx vy x y Hn Hnb H1 H2' | id ps r ls b cenv fv svs' vars els Hnd Hndsv Hsvin Hfr Hag Hown Hvec HF].
     - constructor.
     - assert (Ha : a < length (wh W)) by (apply nth_error_Some; congruence).
       econstructor; eauto. + rewrite H2; auto. + eapply not_box_mono; eauto.
@@ -223,6 +251,60 @@ Section Full.
   Lemma Forall2_vrelW_mono : forall W W' vs ws, wbounds W -> wext W W' ->
     Forall2 (vrelW W) vs ws -> Forall2 (vrelW W') vs ws.
   Proof. intros W W' vs ws HB HE H. induction H; constructor; eauto using vrelW_mono. Qed.
+
+  (** every SPEC global has a VM global representing it in world W (globals are looked up by name at run time on both
+      sides: no closure captures one, the world holds none) *)
+  Definition globrel (W : world) (sg : list (nat * sval)) (gl : list (nat * value)) : Prop :=
+    forall g w, glob_lookup g sg = Some w -> exists v0, assoc_nat g gl = Some v0 /\ vrelW W v0 w.
+
+  Lemma globrel_mono : forall W W' sg gl, wbounds W -> wext W W' -> globrel W sg gl -> globrel W' sg gl.
+  Proof.
+    intros W W' sg gl HB HE H g w Hg.
+    destruct (H g w Hg) as (v0 & Ha & Hv). exists v0. split; [exact Ha|]. eapply vrelW_mono; eauto.
+  Qed.
+
+  Lemma glob_lookup_set : forall g x w l,
+    glob_lookup g (glob_set x w l) = if Nat.eqb g x then Some w else glob_lookup g l.
+  Proof.
+    intros g x w l. induction l as [|[k u] t IH]; cbn [glob_set glob_lookup].
+    - destruct (Nat.eqb g x); reflexivity.
+    - destruct (Nat.eqb x k) eqn:E; cbn [glob_lookup].
+      + apply Nat.eqb_eq in E. subst k. destruct (Nat.eqb g x); reflexivity.
+      + rewrite IH. destruct (Nat.eqb g k) eqn:E2; [|reflexivity].
+        apply Nat.eqb_eq in E2. subst k. rewrite Nat.eqb_sym, E. reflexivity.
+  Qed.
+
+  Lemma assoc_nat_set : forall {A} g x (w : A) l,
+    assoc_nat g (assoc_set x w l) = if Nat.eqb g x then Some w else assoc_nat g l.
+  Proof.
+    intros A g x w l. induction l as [|[k u] t IH]; cbn [assoc_set assoc_nat].
+    - destruct (Nat.eqb g x); reflexivity.
+    - destruct (Nat.eqb x k) eqn:E; cbn [assoc_nat].
+      + apply Nat.eqb_eq in E. subst k. destruct (Nat.eqb g x); reflexivity.
+      + rewrite IH. destruct (Nat.eqb g k) eqn:E2; [|reflexivity].
+        apply Nat.eqb_eq in E2. subst k. rewrite Nat.eqb_sym, E. reflexivity.
+  Qed.
+
+  Lemma globrel_set : forall W sg gl x v' w, globrel W sg gl -> vrelW W v' w ->
+    globrel W (glob_set x w sg) (assoc_set x v' gl).
+  Proof.
+    intros W sg gl x v' w H Hv g w0 Hg. rewrite glob_lookup_set in Hg. rewrite assoc_nat_set.
+    destruct (Nat.eqb g x).
+    - inversion Hg; subst w0. exists v'. split; [reflexivity|exact Hv].
+    - apply H. exact Hg.
+  Qed.
+
+  Lemma step_push_cell : forall s pre g post, at_code s pre [IPushCell g] post ->
+    step s = Next (upd s (VCell g :: stk s) (S (ip s)) (heap s)).
+  Proof. intros s pre g post H. unfold step. rewrite (fetch _ _ _ _ H). reflexivity. Qed.
+
+  Lemma step_set_cdr_cell : forall s pre post g v r, at_code s pre [ISetCdr] post -> stk s = VCell g :: v :: r ->
+    step s = Next (mkst r (fp s) (self s) (S (ip s)) (heap s) (assoc_set g v (globals s))).
+  Proof. intros s pre post g v r H Hs. unfold step. rewrite (fetch _ _ _ _ H), Hs. reflexivity. Qed.
+
+  (** like [upd], with new globals *)
+  Definition updg (s : state) (st : list value) (ip' : nat) (h : list hobj) (g : list (nat * value)) : state :=
+    mkst st (fp s) (self s) ip' h g.
 
 
   (* ---------------------------------------------------------------- stack slots: sget / sset *)
@@ -277,27 +359,25 @@ Section Full.
        exists nm v w, nth_error (wh W) bx = Some (HPair nm v) /\ nth_error (wc W) loc = Some w /\ vrelW W v w) /\
     (forall l1 l2 b, wb W l1 = Some b -> wb W l2 = Some b -> l1 = l2).
 
-  (** frame / closure-vector / globals relation for the procedure being executed *)
-  Definition env_okA (cur : fctxA) (env : senv) (sg : list (nat * sval)) (W : world) (s : state) : Prop :=
-    (forall id ps ls fv, cur = Some (id, ps, ls, fv) -> forall x, memn x (ps ++ ls) = true ->
+  (** frame / closure-vector relation for the procedure being executed (the globals: [globrel]) *)
+  Definition env_okA (cur : fctxA) (env : senv) (W : world) (s : state) : Prop :=
+    (forall id ps r lr ls fv, cur = Some (id, ps, r, lr, ls, fv) -> forall x, memn x (ps ++ lr ++ ls) = true ->
        exists loc k v, env_lookup (x, Local id) env = Some loc /\
-                       slot (fp s) (param_index ps None ls x) = Some k /\ sget (stk s) k = Some v /\
+                       slot (fp s) (param_index ps r ls x) = Some k /\ sget (stk s) k = Some v /\
                        varrel W (x, Local id) loc v)
-    /\ (forall id ps ls fv, cur = Some (id, ps, ls, fv) ->
-          exists els, vec_ok W fv (vars_of (self s)) els /\ fvrelW W env fv els)
-    /\ (forall g w, glob_lookup g sg = Some w -> exists v, assoc_nat g (globals s) = Some v /\ vrelW W v w).
+    /\ (forall id ps r lr ls fv, cur = Some (id, ps, r, lr, ls, fv) ->
+          exists els, vec_ok W fv (vars_of (self s)) els /\ fvrelW W env fv els).
 
-  Lemma env_okA_mono : forall cur env sg W W' s s1 vs,
-    env_okA cur env sg W s -> wbounds W -> wext W W' ->
-    fp s1 = fp s -> self s1 = self s -> globals s1 = globals s -> stk s1 = vs ++ stk s ->
-    env_okA cur env sg W' s1.
+  Lemma env_okA_mono : forall cur env W W' s s1 vs,
+    env_okA cur env W s -> wbounds W -> wext W W' ->
+    fp s1 = fp s -> self s1 = self s -> stk s1 = vs ++ stk s ->
+    env_okA cur env W' s1.
   Proof.
-    intros cur env sg W W' s s1 vs (HP & HV & HG) HB HE Hfp Hself Hgl Hstk. repeat split.
-    - intros id ps ls fv Hc x Hm. destruct (HP id ps ls fv Hc x Hm) as (loc & k & v & Hl & Hs & Hg & Hv).
+    intros cur env W W' s s1 vs (HP & HV) HB HE Hfp Hself Hstk. split.
+    - intros id ps r lr ls fv Hc x Hm. destruct (HP id ps r lr ls fv Hc x Hm) as (loc & k & v & Hl & Hs & Hg & Hv).
       exists loc, k, v. rewrite Hfp, Hstk. repeat split; auto using sget_app. eapply varrel_mono; eauto.
-    - intros id ps ls fv Hc. destruct (HV id ps ls fv Hc) as (els & Hvo & Hfv). exists els. rewrite Hself.
+    - intros id ps r lr ls fv Hc. destruct (HV id ps r lr ls fv Hc) as (els & Hvo & Hfv). exists els. rewrite Hself.
       split; [eapply vec_ok_mono; eauto | eapply fvrelW_mono; eauto].
-    - intros g w Hg. destruct (HG g w Hg) as (v & Ha & Hv). exists v. rewrite Hgl. split; auto. eapply vrelW_mono; eauto.
   Qed.
 
   (* ---------------------------------------------------------------- world updates *)
@@ -374,35 +454,35 @@ Section Full.
 
   (* ---------------------------------------------------------------- the boxing loop of the entry code *)
 
-  Definition box1 (ps ls : list name) (x : name) : code :=
-    [ILocalRef (param_index ps None ls x); IPush (LSym x); ICons; ILocalSet (param_index ps None ls x)].
+  Definition box1 (ps : list name) (r : option name) (ls : list name) (x : name) : code :=
+    [ILocalRef (param_index ps r ls x); IPush (LSym x); ICons; ILocalSet (param_index ps r ls x)].
 
-  Lemma box_code_cons : forall ps ls x xs, box_code ps None ls (x :: xs) = box1 ps ls x ++ box_code ps None ls xs.
+  Lemma box_code_cons : forall ps r ls x xs, box_code ps r ls (x :: xs) = box1 ps r ls x ++ box_code ps r ls xs.
   Proof. reflexivity. Qed.
 
-  Lemma box_loop : forall ps ls xs s pre post,
-    at_code s pre (box_code ps None ls xs) post ->
+  Lemma box_loop : forall ps r ls xs s pre post,
+    at_code s pre (box_code ps r ls xs) post ->
     NoDup xs ->
-    (forall x, In x xs -> exists k v, slot (fp s) (param_index ps None ls x) = Some k /\ sget (stk s) k = Some v) ->
-    (forall x y k, In x xs -> In y xs -> slot (fp s) (param_index ps None ls x) = Some k ->
-                   slot (fp s) (param_index ps None ls y) = Some k -> x = y) ->
+    (forall x, In x xs -> exists k v, slot (fp s) (param_index ps r ls x) = Some k /\ sget (stk s) k = Some v) ->
+    (forall x y k, In x xs -> In y xs -> slot (fp s) (param_index ps r ls x) = Some k ->
+                   slot (fp s) (param_index ps r ls y) = Some k -> x = y) ->
     exists stk' boxes,
-      reaches s (mkst stk' (fp s) (self s) (length pre + length (box_code ps None ls xs)) (heap s ++ boxes) (globals s)) /\
+      reaches s (mkst stk' (fp s) (self s) (length pre + length (box_code ps r ls xs)) (heap s ++ boxes) (globals s)) /\
       length stk' = length (stk s) /\ length boxes = length xs /\
-      (forall k, (forall x, In x xs -> slot (fp s) (param_index ps None ls x) <> Some k) -> sget stk' k = sget (stk s) k) /\
-      (forall m, (forall x k, In x xs -> slot (fp s) (param_index ps None ls x) = Some k -> m <= k) ->
+      (forall k, (forall x, In x xs -> slot (fp s) (param_index ps r ls x) <> Some k) -> sget stk' k = sget (stk s) k) /\
+      (forall m, (forall x k, In x xs -> slot (fp s) (param_index ps r ls x) = Some k -> m <= k) ->
                  below m stk' = below m (stk s)) /\
       (forall i x, nth_error xs i = Some x ->
-         exists k v, slot (fp s) (param_index ps None ls x) = Some k /\ sget (stk s) k = Some v /\
+         exists k v, slot (fp s) (param_index ps r ls x) = Some k /\ sget (stk s) k = Some v /\
                      sget stk' k = Some (VPair (length (heap s) + i)) /\
                      nth_error (heap s ++ boxes) (length (heap s) + i) = Some (HPair (VLit (LSym x)) v)).
   Proof.
-    intros ps ls xs. induction xs as [|x rest IH]; intros s pre post Hat Hnd Hsl Hinj.
+    intros ps r ls xs. induction xs as [|x rest IH]; intros s pre post Hat Hnd Hsl Hinj.
     - exists (stk s), []. destruct Hat as [_ Hip]. simpl. repeat split; auto.
       + rewrite app_nil_r, Nat.add_0_r, <- Hip. destruct s; apply reaches_refl.
       + intros i x H. destruct i; discriminate H.
-    - rewrite box_code_cons in *. set (k0 := param_index ps None ls x) in *.
-      set (cr := box_code ps None ls rest) in *.
+    - rewrite box_code_cons in *. set (k0 := param_index ps r ls x) in *.
+      set (cr := box_code ps r ls rest) in *.
       inversion Hnd as [|x' r' Hnotin Hnd']; subst x' r'.
       destruct (Hsl x (or_introl eq_refl)) as (k & v & Hk & Hv). fold k0 in Hk.
       destruct Hat as [Hcode Hip]. unfold box1 in Hcode. fold k0 in Hcode.
@@ -426,12 +506,12 @@ Section Full.
       set (s4 := upd s3 r' (S (ip s3)) (heap s3)) in *.
       assert (Hat5 : at_code s4 (pre ++ [ILocalRef k0; IPush (LSym x); ICons; ILocalSet k0]) cr post).
       { split; simpl; [|solve_len]. rewrite Hcode. norm_code. }
-      assert (Hsl4 : forall y, In y rest -> exists ky vy, slot (fp s4) (param_index ps None ls y) = Some ky /\ sget (stk s4) ky = Some vy).
+      assert (Hsl4 : forall y, In y rest -> exists ky vy, slot (fp s4) (param_index ps r ls y) = Some ky /\ sget (stk s4) ky = Some vy).
       { intros y Hy. destruct (Hsl y (or_intror Hy)) as (ky & vy & Hky & Hvy). exists ky, vy. split; auto.
         simpl. rewrite (sget_sset_other _ _ ky _ _ Hss); auto.
         intro E; subst ky. assert (y = x) by (eapply (Hinj y x k); simpl; auto). subst y. contradiction. }
-      assert (Hinj4 : forall y z kk, In y rest -> In z rest -> slot (fp s4) (param_index ps None ls y) = Some kk ->
-                                     slot (fp s4) (param_index ps None ls z) = Some kk -> y = z).
+      assert (Hinj4 : forall y z kk, In y rest -> In z rest -> slot (fp s4) (param_index ps r ls y) = Some kk ->
+                                     slot (fp s4) (param_index ps r ls z) = Some kk -> y = z).
       { intros y z kk Hy Hz. apply Hinj; simpl; auto. }
       destruct (IH s4 _ post Hat5 Hnd' Hsl4 Hinj4) as (stk' & boxes & Hreach & Hlen & Hlb & Hunch & Hbel & Hbox).
       fold cr in Hreach.
@@ -442,7 +522,7 @@ Section Full.
         eapply reaches_trans; [apply reaches_step; exact Hst2|].
         eapply reaches_trans; [apply reaches_step; exact Hst3|].
         eapply reaches_trans; [apply reaches_step; exact Hst4|].
-        replace (mkst stk' (fp s) (self s) (length pre + length (box1 ps ls x ++ cr)) (heap s ++ HPair (VLit (LSym x)) v :: boxes) (globals s))
+        replace (mkst stk' (fp s) (self s) (length pre + length (box1 ps r ls x ++ cr)) (heap s ++ HPair (VLit (LSym x)) v :: boxes) (globals s))
           with (mkst stk' (fp s4) (self s4) (length (pre ++ [ILocalRef k0; IPush (LSym x); ICons; ILocalSet k0]) + length cr)
                      (heap s4 ++ boxes) (globals s4)); [exact Hreach|].
         rewrite Hheap4. simpl. f_equal; [solve_len | rewrite <- app_assoc; reflexivity].
@@ -575,58 +655,61 @@ Section Full.
 
   (* ---------------------------------------------------------------- the statement *)
 
-  Definition fallH (s : state) (v' : value) (pre c : code) (h' : list hobj) : state :=
-    upd s (v' :: stk s) (length pre + length c) h'.
+  Definition fallH (s : state) (v' : value) (pre c : code) (h' : list hobj) (g' : list (nat * value)) : state :=
+    mkst (v' :: stk s) (fp s) (self s) (length pre + length c) h' g'.
 
-  Definition retH (s : state) (v' : value) (j rip : nat) (rself : value) (rfp : nat) (h' : list hobj) : state :=
-    mkst (v' :: below (fp s - j) (stk s)) rfp rself rip h' (globals s).
+  Definition retH (s : state) (v' : value) (j rip : nat) (rself : value) (rfp : nat) (h' : list hobj)
+             (g' : list (nat * value)) : state :=
+    mkst (v' :: below (fp s - j) (stk s)) rfp rself rip h' g'.
 
-  Definition outcomeH (tl : bool) (s : state) (pre c : code) (v' : value) (h' : list hobj) : Prop :=
-    reaches s (fallH s v' pre c h') \/
+  Definition outcomeH (tl : bool) (s : state) (pre c : code) (v' : value) (h' : list hobj) (g' : list (nat * value)) : Prop :=
+    reaches s (fallH s v' pre c h' g') \/
     (tl = true /\ forall j rip rself rfp, frame_info s = Some (j, rip, rself, rfp) -> j <= fp s ->
-       reaches s (retH s v' j rip rself rfp h')).
+       reaches s (retH s v' j rip rself rfp h' g')).
 
-  Lemma outcomeH_false : forall s pre c v' h', outcomeH false s pre c v' h' -> reaches s (fallH s v' pre c h').
-  Proof. intros s pre c v' h' [H | [H _]]; [exact H | discriminate]. Qed.
+  Lemma outcomeH_false : forall s pre c v' h' g', outcomeH false s pre c v' h' g' -> reaches s (fallH s v' pre c h' g').
+  Proof. intros s pre c v' h' g' [H | [H _]]; [exact H | discriminate]. Qed.
 
+  (** the result: a later world with the cells of st', a value, and VM globals representing the SPEC's globals *)
   Definition resA (tl : bool) (s : state) (pre c : code) (W : world) (v : sval) (st' : sstore) : Prop :=
-    exists W' v', wext W W' /\ wc W' = cells st' /\ WINV W' /\ vrelW W' v' v /\ outcomeH tl s pre c v' (wh W').
+    exists W' v' g', wext W W' /\ wc W' = cells st' /\ WINV W' /\ vrelW W' v' v /\
+                     globrel W' (sglobals st') g' /\ outcomeH tl s pre c v' (wh W') g'.
 
   Definition simA_at (f : nat) (e : ast) : Prop :=
     forall cur env st v st', fragA cur e = true -> eval f e env st = SVal v st' ->
     forall tl svs s pre post W, agrees svs ->
     at_code s pre (generate tl svs (lctxA cur) e) post ->
     wh W = heap s -> wc W = cells st -> WINV W ->
-    env_okA cur env (sglobals st) W s ->
-    sglobals st' = sglobals st /\ resA tl s pre (generate tl svs (lctxA cur) e) W v st'.
+    env_okA cur env W s -> globrel W (sglobals st) (globals s) ->
+    resA tl s pre (generate tl svs (lctxA cur) e) W v st'.
 
-  (** continuing after an intermediate state s2 of the same frame (same stack, fp, self, globals) *)
-  Lemma outcomeH_lift : forall tl s s2 pre pre2 c c2 v' h',
+  (** continuing after an intermediate state s2 of the same frame (same stack, fp, self) *)
+  Lemma outcomeH_lift : forall tl s s2 pre pre2 c c2 v' h' g',
     reaches s s2 ->
-    stk s2 = stk s -> fp s2 = fp s -> self s2 = self s -> globals s2 = globals s ->
-    reaches (fallH s2 v' pre2 c2 h') (fallH s v' pre c h') ->
-    outcomeH tl s2 pre2 c2 v' h' -> outcomeH tl s pre c v' h'.
+    stk s2 = stk s -> fp s2 = fp s -> self s2 = self s ->
+    reaches (fallH s2 v' pre2 c2 h' g') (fallH s v' pre c h' g') ->
+    outcomeH tl s2 pre2 c2 v' h' g' -> outcomeH tl s pre c v' h' g'.
   Proof.
-    intros tl s s2 pre pre2 c c2 v' h' Hr Hs Hf Hse Hg Hcont [Ho | [Htl Ho]].
+    intros tl s s2 pre pre2 c c2 v' h' g' Hr Hs Hf Hse Hcont [Ho | [Htl Ho]].
     - left. eapply reaches_trans; [exact Hr|]. eapply reaches_trans; [exact Ho|exact Hcont].
     - right. split; auto. intros j rip rself rfp Hfi Hj.
       assert (Hfi2 : frame_info s2 = Some (j, rip, rself, rfp)).
       { eapply (frame_info_app s s2 []); eauto. }
       rewrite <- Hf in Hj. specialize (Ho j rip rself rfp Hfi2 Hj).
       eapply reaches_trans; [exact Hr|].
-      replace (retH s v' j rip rself rfp h') with (retH s2 v' j rip rself rfp h'); auto.
-      unfold retH. rewrite Hs, Hf, Hg. reflexivity.
+      replace (retH s v' j rip rself rfp h' g') with (retH s2 v' j rip rself rfp h' g'); auto.
+      unfold retH. rewrite Hs, Hf. reflexivity.
   Qed.
 
-  Lemma fallH_eq : forall s s2 v' pre pre2 c c2 h',
-    stk s2 = stk s -> fp s2 = fp s -> self s2 = self s -> globals s2 = globals s ->
+  Lemma fallH_eq : forall s s2 v' pre pre2 c c2 h' g',
+    stk s2 = stk s -> fp s2 = fp s -> self s2 = self s ->
     length pre2 + length c2 = length pre + length c ->
-    fallH s2 v' pre2 c2 h' = fallH s v' pre c h'.
-  Proof. intros s s2 v' pre pre2 c c2 h' Hs Hf Hse Hg Hl. unfold fallH, upd. rewrite Hs, Hf, Hse, Hg, Hl. reflexivity. Qed.
+    fallH s2 v' pre2 c2 h' g' = fallH s v' pre c h' g'.
+  Proof. intros s s2 v' pre pre2 c c2 h' g' Hs Hf Hse Hl. unfold fallH. rewrite Hs, Hf, Hse, Hl. reflexivity. Qed.
 
   Lemma leafH : forall tl s pre i post v',
     at_code s pre [i] post -> step s = Next (upd s (v' :: stk s) (S (ip s)) (heap s)) ->
-    outcomeH tl s pre [i] v' (heap s).
+    outcomeH tl s pre [i] v' (heap s) (globals s).
   Proof.
     intros tl s pre i post v' [_ Hip] Hstep. left. apply reaches_step. rewrite Hstep.
     unfold fallH, upd. rewrite Hip. simpl. f_equal. f_equal. lia.
@@ -634,9 +717,28 @@ Section Full.
 
   (* ---------------------------------------------------------------- slots of locals; the header *)
 
-  Lemma param_index_local : forall ps ls x j, index_of x ps = None -> index_of x ls = Some j ->
-    param_index ps None ls x = (- Z.of_nat j - 5)%Z.
-  Proof. intros ps ls x j H1 H2. unfold param_index. rewrite H1, H2. reflexivity. Qed.
+  Lemma param_index_local : forall ps r ls x j, index_of x (ps ++ rest_list r) = None -> index_of x ls = Some j ->
+    param_index ps r ls x = (- Z.of_nat j - 5)%Z.
+  Proof.
+    intros ps r ls x j H1 H2. unfold param_index.
+    destruct (index_of x ps) as [i|] eqn:E; [rewrite (index_of_app_l _ _ (rest_list r) _ E) in H1; discriminate H1|].
+    rewrite index_of_app_r in H1 by exact E.
+    destruct r as [y|]; simpl in H1.
+    - destruct (Nat.eqb y x); [discriminate H1|]. rewrite H2. reflexivity.
+    - rewrite H2. reflexivity.
+  Qed.
+
+  (** parameters and the rest parameter (any locals) *)
+  Lemma param_index_args : forall ps r ls x k, index_of x (ps ++ rest_list r) = Some k ->
+    param_index ps r ls x = Z.of_nat k.
+  Proof.
+    intros ps r ls x k H. unfold param_index.
+    destruct (index_of x ps) as [i|] eqn:E.
+    - rewrite (index_of_app_l _ _ (rest_list r) _ E) in H. congruence.
+    - rewrite index_of_app_r in H by exact E.
+      destruct r as [y|]; simpl in H; try discriminate.
+      destruct (Nat.eqb y x); simpl in H; try discriminate. inversion H. f_equal. lia.
+  Qed.
 
   Lemma slot_local : forall n j, slot n (- Z.of_nat j - 5)%Z = Some (n + 4 + j).
   Proof.
@@ -709,100 +811,212 @@ Section Full.
   Lemma nth_error_repeat_lt : forall {A} (a : A) n k, k < n -> nth_error (repeat a n) k = Some a.
   Proof. intros A a n. induction n as [|n IH]; intros [|k] H; simpl; auto; try lia. apply IH. lia. Qed.
 
-  Lemma bind_all_app_eq : forall {T} id ps ls vs cenv cs (F : senv -> list sval -> T), length vs = length ps ->
+  Lemma spec_bind_eqA : forall {T} id ps r ls vs cenv cs (F : senv -> list sval -> T), length ps <= length vs ->
     (let '(e1, c1) := bind_all id ps (firstn (length ps) vs) cenv cs in
-     let '(e2, c2) := (e1, c1) in
+     let '(e2, c2) := match r with
+                      | Some x => bind_all id [x] [slist (skipn (length ps) vs)] e1 c1
+                      | None => (e1, c1)
+                      end in
      let '(e3, c3) := bind_all id ls (repeat (SLit LUndef) (length ls)) e2 c2 in F e3 c3)
-    = F (fst (bind_all id (ps ++ ls) (vs ++ repeat (SLit LUndef) (length ls)) cenv cs))
-        (snd (bind_all id (ps ++ ls) (vs ++ repeat (SLit LUndef) (length ls)) cenv cs)).
+    = F (fst (bind_all id ((ps ++ rest_list r) ++ ls) (spec_vals (length ps) r vs ++ repeat (SLit LUndef) (length ls)) cenv cs))
+        (snd (bind_all id ((ps ++ rest_list r) ++ ls) (spec_vals (length ps) r vs ++ repeat (SLit LUndef) (length ls)) cenv cs)).
   Proof.
-    intros T id ps ls vs cenv cs F Hl. rewrite <- Hl, firstn_all. rewrite bind_all_app by exact Hl.
-    destruct (bind_all id ps vs cenv cs) as [e1 c1]. simpl fst. simpl snd.
-    destruct (bind_all id ls (repeat (SLit LUndef) (length ls)) e1 c1) as [e3 c3]. reflexivity.
+    intros T id ps r ls vs cenv cs F Hle.
+    assert (Hl : length (spec_vals (length ps) r vs) = length (ps ++ rest_list r)).
+    { rewrite spec_vals_length by exact Hle. rewrite app_length. reflexivity. }
+    rewrite bind_all_app by exact Hl.
+    unfold spec_vals.
+    assert (Hl1 : length (firstn (length ps) vs) = length ps) by (apply firstn_length_le; exact Hle).
+    rewrite bind_all_app by exact Hl1.
+    destruct (bind_all id ps (firstn (length ps) vs) cenv cs) as [e1 c1]. simpl fst. simpl snd.
+    destruct r as [x|]; cbn [rest_list bind_all fst snd].
+    - destruct (bind_all id ls (repeat (SLit LUndef) (length ls)) (((x, Local id), length c1) :: e1)
+                         (c1 ++ [slist (skipn (length ps) vs)])) as [e3 c3]. reflexivity.
+    - destruct (bind_all id ls (repeat (SLit LUndef) (length ls)) e1 c1) as [e3 c3]. reflexivity.
+  Qed.
+
+  Lemma NoDup_app_notin_l : forall (a b : list name) x, NoDup (a ++ b) -> In x b -> ~ In x a.
+  Proof.
+    induction a as [|y a IH]; intros b x Hnd Hb Ha; simpl in *; [exact Ha|].
+    inversion Hnd as [|y' l' Hnin Hnd']; subst. destruct Ha as [->|Ha].
+    - apply Hnin. apply in_or_app. right; exact Hb.
+    - exact (IH b x Hnd' Hb Ha).
+  Qed.
+
+  Lemma live_of_sub : forall id r b x, memn x (live_of id r b) = true -> memn x (rest_list r) = true.
+  Proof. intros id r b x. unfold live_of. destruct (rest_unused true id r b); [discriminate|auto]. Qed.
+
+  (** [SimRest.dead_of] (no slot) and [live_of] (slot) split the rest parameter *)
+  Lemma live_of_cases : forall id r b,
+    (dead_of id r b = rest_list r -> live_of id r b = []) /\ (dead_of id r b = [] -> live_of id r b = rest_list r).
+  Proof.
+    intros id r b. unfold dead_of, live_of. destruct (rest_unused true id r b); split; intro H; auto.
+  Qed.
+
+  (** a rest parameter without a slot is never referenced or assigned in the body (nested lambdas included) *)
+  Lemma dead_rest_not_mentioned : forall id x b, live_of id (Some x) b = [] -> mentions id x b = false.
+  Proof.
+    intros id x b H. unfold live_of in H. destruct (rest_unused true id (Some x) b) eqn:E; [|discriminate H].
+    exact (Proofs.rest_unused_sound id x b E).
+  Qed.
+
+  (** the rest list consed by make_call (vm.c:1326-1328): fresh pairs at the end of the heap, no box involved *)
+  Lemma build_list_relW : forall W vl wl, WINV W -> Forall2 (vrelW W) vl wl ->
+    forall h' l, build_list (wh W) vl = (h', l) ->
+    exists W', wext W W' /\ WINV W' /\ wc W' = wc W /\ wh W' = h' /\ vrelW W' l (slist wl).
+  Proof.
+    intros W vl wl HI H. pose proof HI as (HB & _). induction H as [|v w vr wr Hvw Hr IH]; intros h' l Hb; simpl in Hb.
+    - inversion Hb; subst. exists W. split; [apply wext_refl; exact HB|]. split; [exact HI|]. split; [reflexivity|].
+      split; [reflexivity|constructor].
+    - destruct (build_list (wh W) vr) as [h1 tl] eqn:E. destruct (IH h1 tl eq_refl) as (W1 & HE1 & HI1 & HWc1 & HWh1 & Htl).
+      unfold alloc in Hb. inversion Hb; subst h' l. pose proof HI1 as (HB1 & _).
+      exists (walloc W1 (HPair v tl)).
+      assert (HE2 : wext W1 (walloc W1 (HPair v tl))) by (apply walloc_ext; exact HB1).
+      split; [eapply wext_trans; eauto|]. split; [apply walloc_INV; exact HI1|]. split; [exact HWc1|].
+      split; [simpl; rewrite HWh1; reflexivity|].
+      simpl slist. rewrite <- HWh1. eapply VW_pair.
+      + simpl. rewrite nth_error_app2 by lia. rewrite Nat.sub_diag. reflexivity.
+      + apply walloc_not_box; exact HB1.
+      + eapply vrelW_mono; [exact HB1|exact HE2|]. exact (vrelW_mono W W1 HB HE1 v w Hvw).
+      + exact (vrelW_mono W1 _ HB1 HE2 _ _ Htl).
   Qed.
 
   Lemma call_closedA : forall f, (forall e, simA_at f e) ->
-    forall s0 W id ps ls b fv svs' vars els vargs vs X rfp rself rip cenv st2 v st',
-    agrees svs' -> nodupb (ps ++ ls) = true -> nodupb (SV id) = true ->
-    forallb (fun x => memn x (ps ++ ls)) (SV id) = true ->
-    fragA (Some (id, ps, ls, fv)) b = true ->
+    forall s0 W0 id ps r ls b fv svs' vars els vargs vs X rfp rself rip cenv st2 v st',
+    agrees svs' -> nodupb (frame_vars ps r ls) = true -> nodupb (SV id) = true ->
+    forallb (fun x => memn x (ps ++ live_of id r b ++ ls)) (SV id) = true ->
+    fragA (Some (id, ps, r, live_of id r b, ls, fv)) b = true ->
     (forall p, In p fv -> exists m, snd p = Local m /\ m <> id) ->
-    vec_ok W fv vars els -> fvrelW W cenv fv els ->
-    wh W = heap s0 -> wc W = cells st2 -> WINV W ->
-    length vs = length ps -> Forall2 (vrelW W) vargs vs ->
-    (forall g w, glob_lookup g (sglobals st2) = Some w -> exists v0, assoc_nat g (globals s0) = Some v0 /\ vrelW W v0 w) ->
-    eval f b (fst (bind_all id (ps ++ ls) (vs ++ repeat (SLit LUndef) (length ls)) cenv (cells st2)))
-             (mkstore (snd (bind_all id (ps ++ ls) (vs ++ repeat (SLit LUndef) (length ls)) cenv (cells st2))) (sglobals st2))
+    vec_ok W0 fv vars els -> fvrelW W0 cenv fv els ->
+    wh W0 = heap s0 -> wc W0 = cells st2 -> WINV W0 ->
+    length ps <= length vs -> (r = None -> length vs = length ps) -> Forall2 (vrelW W0) vargs vs ->
+    globrel W0 (sglobals st2) (globals s0) ->
+    eval f b (fst (bind_all id ((ps ++ rest_list r) ++ ls) (spec_vals (length ps) r vs ++ repeat (SLit LUndef) (length ls)) cenv (cells st2)))
+             (mkstore (snd (bind_all id ((ps ++ rest_list r) ++ ls) (spec_vals (length ps) r vs ++ repeat (SLit LUndef) (length ls)) cenv (cells st2))) (sglobals st2))
       = SVal v st' ->
-    sglobals st' = sglobals st2 /\
-    exists sc W' v',
-      make_call s0 (VProc 0 (length ps) (entryA svs' id ps ls fv b) vars) (vargs ++ X) (length vargs) rip rself rfp = Next sc /\
-      wext W W' /\ wc W' = cells st' /\ WINV W' /\ vrelW W' v' v /\
-      reaches sc (mkst (v' :: X) rfp rself rip (wh W') (globals s0)).
+    exists sc W' v' g',
+      make_call s0 (VProc (lam_flags id r b) (length ps) (entryA svs' id ps r ls fv b) vars) (vargs ++ X) (length vargs) rip rself rfp = Next sc /\
+      wext W0 W' /\ wc W' = cells st' /\ WINV W' /\ vrelW W' v' v /\ globrel W' (sglobals st') g' /\
+      reaches sc (mkst (v' :: X) rfp rself rip (wh W') g').
   Proof.
-    intros f IH s0 W id ps ls b fv svs' vars els vargs vs X rfp rself rip cenv st2 v st'
-           Hag Hnd Hndsv Hsvin Hfr Hown Hvec Hfvr HWh HWc HINV Hlvs Hargs Hgl He.
-    pose proof HINV as (HB & _).
+    intros f IH s0 W0 id ps r ls b fv svs' vars els vargs vs X rfp rself rip cenv st2 v st'
+           Hag Hnd0 Hndsv Hsvin Hfr Hown Hvec0 Hfvr0 HWh0 HWc0 HINV0 Hle Hfix Hargs0 Hgl0 He.
+    pose proof HINV0 as (HB0 & _).
     set (n := length ps) in *. set (nl := length ls) in *.
-    set (frame := ps ++ ls) in *. set (svid := SV id) in *.
-    set (vals := vs ++ repeat (SLit LUndef) nl) in *.
-    assert (Hlva : length vargs = n) by (rewrite (Forall2_len _ _ _ Hargs); exact Hlvs).
+    set (pr := ps ++ rest_list r) in *.
+    set (frame := pr ++ ls) in *. set (svid := SV id) in *.
+    set (live := live_of id r b) in *.
+    set (sv' := spec_vals n r vs) in *.
+    set (vals := sv' ++ repeat (SLit LUndef) nl) in *.
+    assert (Hnd : nodupb frame = true).
+    { unfold frame, pr. rewrite <- app_assoc. exact Hnd0. }
+    assert (Hlva : length vargs = length vs) by exact (Forall2_len _ _ _ Hargs0).
+    assert (Hlsv : length sv' = length pr).
+    { unfold sv', pr. rewrite spec_vals_length by exact Hle. rewrite app_length. reflexivity. }
     assert (Hlvals : length vals = length frame).
-    { unfold vals, frame. rewrite !app_length, repeat_length. fold n nl. lia. }
-    set (proc := VProc 0 n (entryA svs' id ps ls fv b) vars) in *.
-    set (hdr := [vint rfp; rself; vint rip; vint n]).
-    set (sc := mkst (hdr ++ vargs ++ X) (length (vargs ++ X)) proc 0 (heap s0) (globals s0)).
-    assert (Hmc : make_call s0 proc (vargs ++ X) (length vargs) rip rself rfp = Next sc).
-    { unfold proc. rewrite Hlva. rewrite make_call_fixed by (rewrite app_length; lia). reflexivity. }
+    { unfold vals, frame. rewrite !app_length, repeat_length, Hlsv. reflexivity. }
+    set (entry := entryA svs' id ps r ls fv b) in *.
+    destruct (make_call_protocol s0 id r b n entry vars vargs X rip rself rfp
+                ltac:(lia) ltac:(intro Hr; rewrite Hlva; auto)) as (vargs' & h' & Hmc & Hcase).
+    set (proc := VProc (lam_flags id r b) n entry vars) in *.
+    (* the world after the rest list has been consed; the parameters that have a slot are represented *)
+    assert (Hlive : exists W, wext W0 W /\ WINV W /\ wc W = wc W0 /\ wh W = h' /\
+              n <= length vargs' /\
+              forall x k, memn x (ps ++ live) = true -> index_of x pr = Some k ->
+                          exists va w, nth_error vargs' k = Some va /\ nth_error sv' k = Some w /\ vrelW W va w).
+    { destruct (live_of_cases id r b) as [Hlc1 Hlc2]. fold live in Hlc1, Hlc2.
+      destruct Hcase as [(Hd & -> & ->) | (x0 & l & -> & Hd & Hb & ->)].
+      - exists W0. split; [apply wext_refl; exact HB0|]. split; [exact HINV0|]. split; [reflexivity|]. split; [exact HWh0|].
+        split; [lia|]. intros x k Hm Hk. rewrite (Hlc1 Hd), app_nil_r in Hm.
+        destruct (memn_index_of x ps Hm) as (k' & Hk' & Hkl').
+        unfold pr in Hk. rewrite (index_of_app_l _ _ (rest_list r) _ Hk') in Hk. inversion Hk; subst k'.
+        destruct (nth_error vs k) as [w|] eqn:Ew; [|apply nth_error_None in Ew; lia].
+        destruct (Forall2_nth _ _ _ _ _ Hargs0 Ew) as (va & Hva & Hrel).
+        exists va, w. split; [exact Hva|]. split; [|exact Hrel].
+        unfold sv', spec_vals. rewrite nth_error_app1 by (rewrite firstn_length_le; lia).
+        rewrite nth_error_firstn_lt by exact Hkl'. exact Ew.
+      - pose proof (Forall2_skipn _ n _ _ Hargs0) as Hsk.
+        rewrite <- HWh0 in Hb.
+        destruct (build_list_relW W0 _ _ HINV0 Hsk _ _ Hb) as (W & HE & HI & HWc & HWh & Hl).
+        exists W. split; [exact HE|]. split; [exact HI|]. split; [exact HWc|]. split; [exact HWh|].
+        split; [rewrite app_length, firstn_length_le by lia; simpl; lia|].
+        intros x k _ Hk.
+        assert (HF : Forall2 (vrelW W) (firstn n vargs ++ [l]) sv').
+        { unfold sv', spec_vals. apply Forall2_app2.
+          - eapply Forall2_vrelW_mono; eauto. apply Forall2_firstn. exact Hargs0.
+          - constructor; [exact Hl|constructor]. }
+        assert (Hkl : k < length sv') by (rewrite Hlsv; eapply index_of_lt; eauto).
+        destruct (nth_error sv' k) as [w|] eqn:Ew; [|apply nth_error_None in Ew; lia].
+        destruct (Forall2_nth _ _ _ _ _ HF Ew) as (va & Hva & Hrel). exists va, w. auto. }
+    destruct Hlive as (W & HE0 & HINV & HWc1 & HWh & Hnv & Hlive).
+    pose proof HINV as (HB & _).
+    assert (HWc : wc W = cells st2) by congruence.
+    assert (Hvec : vec_ok W fv vars els) by exact (vec_ok_mono W0 W fv vars els HE0 Hvec0).
+    assert (Hfvr : fvrelW W cenv fv els) by exact (fvrelW_mono W0 W cenv fv els HB0 HE0 Hfvr0).
+    assert (Hgl : globrel W (sglobals st2) (globals s0)) by exact (globrel_mono W0 W _ _ HB0 HE0 Hgl0).
+    remember (length vargs') as nv eqn:Hnvdef.
+    set (hdr := [vint rfp; rself; vint rip; vint nv]).
+    set (sc := mkst (hdr ++ vargs' ++ X) (length (vargs' ++ X)) proc 0 h' (globals s0)).
+    assert (Hmc' : make_call s0 proc (vargs ++ X) (length vargs) rip rself rfp = Next sc) by exact Hmc.
     set (pushes := repeat (IPush LUndef) nl).
-    set (boxc := box_code ps None ls svid).
-    set (body := generate true svs' (lctxA (Some (id, ps, ls, fv))) b).
+    set (boxc := box_code ps r ls svid).
+    set (body := generate true svs' (lctxA (Some (id, ps, r, live, ls, fv))) b).
     assert (Hcode : code_of (self sc) = pushes ++ boxc ++ body ++ [IRet]) by reflexivity.
     (* phase 1: the locals *)
     assert (Hat0 : at_code sc [] pushes (boxc ++ body ++ [IRet])) by (split; [exact Hcode|reflexivity]).
     pose proof (push_undefs nl sc [] _ Hat0) as Hr1.
     set (U := repeat (VLit LUndef) nl) in *.
     set (s1 := upd sc (U ++ stk sc) (length (@nil instr) + nl) (heap sc)) in *.
-    set (fp1 := length (vargs ++ X)) in *.
+    set (fp1 := length (vargs' ++ X)) in *.
+    assert (Hfp1 : fp1 = nv + length X) by (unfold fp1; rewrite app_length; lia).
     (* the frame slots after phase 1 *)
-    assert (FS : forall x, memn x frame = true ->
-              exists i k va w, index_of x frame = Some i /\ slot fp1 (param_index ps None ls x) = Some k /\
+    assert (FS : forall x, memn x (ps ++ live ++ ls) = true ->
+              exists i k va w, index_of x frame = Some i /\ slot fp1 (param_index ps r ls x) = Some k /\
                                sget (stk s1) k = Some va /\ nth_error vals i = Some w /\ vrelW W va w /\
-                               fp1 - n <= k /\ (forall t, t < 4 -> k <> fp1 + t)).
-    { intros x Hm. destruct (memn_index_of x frame Hm) as (i & Hi & Hil).
-      destruct (Nat.lt_ge_cases i n) as [Hlt|Hge].
-      - pose proof (index_of_app_inv _ _ _ _ Hi Hlt) as Hip.
-        destruct (nth_error vs i) as [w|] eqn:Ew; [|apply nth_error_None in Ew; lia].
-        destruct (Forall2_nth _ _ _ _ _ Hargs Ew) as (va & Hva & Hrel).
-        exists i, (fp1 - 1 - i), va, w. repeat split; auto.
-        + unfold param_index. rewrite Hip. apply slot_arg. unfold fp1. rewrite app_length. lia.
+                               fp1 - nv <= k /\ (forall t, t < 4 -> k <> fp1 + t)).
+    { intros x Hm. rewrite app_assoc, memn_app in Hm.
+      destruct (memn x (ps ++ live)) eqn:Epl.
+      - assert (Hpr : memn x pr = true).
+        { unfold pr. rewrite memn_app in Epl |- *. apply orb_true_iff in Epl. apply orb_true_iff.
+          destruct Epl as [Hp|Hl]; [left; exact Hp | right; apply (live_of_sub id r b); exact Hl]. }
+        destruct (memn_index_of x pr Hpr) as (i & Hi & Hil).
+        destruct (Hlive x i Epl Hi) as (va & w & Hva & Hw & Hrel).
+        assert (Hiv : i < nv) by (rewrite Hnvdef; apply nth_error_Some; congruence).
+        exists i, (fp1 - 1 - i), va, w. split; [apply index_of_app_l; exact Hi|].
+        split; [rewrite (param_index_args _ _ _ _ _ Hi); apply slot_arg; lia|].
+        split; [|split; [|split; [exact Hrel|split; [lia|intros t Ht; lia]]]].
         + unfold s1, sc, upd; cbn [stk]. rewrite app_assoc. unfold fp1.
           rewrite sget_arg by (rewrite app_length; lia). rewrite nth_error_app1 by lia. exact Hva.
-        + unfold vals. rewrite nth_error_app1 by lia. exact Ew.
-        + unfold fp1. rewrite app_length. lia.
-        + intros t Ht. unfold fp1. rewrite app_length. lia.
-      - destruct (index_of_app_inv2 _ _ _ _ Hi Hge) as [Hnp Hil2]. fold n in Hil2.
-        set (j := i - n) in *. assert (Hj : j < nl) by (apply index_of_lt in Hil2; exact Hil2).
-        exists i, (fp1 + 4 + j), (VLit LUndef), (SLit LUndef). repeat split; auto.
-        + rewrite (param_index_local _ _ _ _ Hnp Hil2). apply slot_local.
+        + unfold vals. rewrite nth_error_app1 by (rewrite Hlsv; exact Hil). exact Hw.
+      - simpl in Hm.
+        assert (Hnpr : index_of x pr = None).
+        { apply memn_false_index_of. destruct (memn x pr) eqn:Epr; auto. exfalso.
+          apply memn_In in Epr. apply memn_In in Hm.
+          exact (NoDup_app_notin_l pr ls x (nodupb_NoDup _ Hnd) Hm Epr). }
+        destruct (memn_index_of x ls Hm) as (j & Hj & Hjl). fold nl in Hjl.
+        exists (length pr + j), (fp1 + 4 + j), (VLit LUndef), (SLit LUndef).
+        split; [unfold frame; rewrite index_of_app_r by exact Hnpr; rewrite Hj; reflexivity|].
+        split; [rewrite (param_index_local _ _ _ _ _ Hnpr Hj); apply slot_local|].
+        split; [|split; [|split; [constructor|split; [lia|intros t Ht; lia]]]].
         + unfold s1, sc, upd; cbn [stk].
-          replace (fp1 + 4 + j) with (length (hdr ++ vargs ++ X) + j) by (unfold hdr, fp1; simpl; lia).
-          rewrite sget_hdr by (unfold U; rewrite repeat_length; exact Hj).
+          replace (fp1 + 4 + j) with (length (hdr ++ vargs' ++ X) + j) by (unfold hdr, fp1; simpl; lia).
+          rewrite sget_hdr by (unfold U; rewrite repeat_length; exact Hjl).
           unfold U. rewrite repeat_length. apply nth_error_repeat_lt. lia.
-        + unfold vals. rewrite nth_error_app2 by lia. rewrite Hlvs. fold n. fold j. apply nth_error_repeat_lt. exact Hj.
-        + constructor.
-        + lia.
-        + intros t Ht. lia. }
-    assert (Hinframe : forall x, In x svid -> memn x frame = true).
+        + unfold vals. rewrite nth_error_app2 by lia. rewrite Hlsv. replace (length pr + j - length pr) with j by lia.
+          apply nth_error_repeat_lt. exact Hjl. }
+    assert (Hinframe : forall x, In x svid -> memn x (ps ++ live ++ ls) = true).
     { intros x Hx. rewrite forallb_forall in Hsvin. apply Hsvin. exact Hx. }
-    assert (Hslotinj : forall x y k, memn x frame = true -> memn y frame = true ->
-              slot fp1 (param_index ps None ls x) = Some k -> slot fp1 (param_index ps None ls y) = Some k -> x = y).
+    assert (Hlivein : forall x, memn x (ps ++ live ++ ls) = true -> In x (frame_vars ps r ls)).
+    { intros x Hm. destruct (FS x Hm) as (i & k & va & w & Hi & _).
+      apply index_of_nth in Hi. apply nth_error_In in Hi. unfold frame, pr in Hi. rewrite <- app_assoc in Hi. exact Hi. }
+    assert (Hslotinj : forall x y k, memn x (ps ++ live ++ ls) = true -> memn y (ps ++ live ++ ls) = true ->
+              slot fp1 (param_index ps r ls x) = Some k -> slot fp1 (param_index ps r ls y) = Some k -> x = y).
     { intros x y k Hx Hy H1 H2. pose proof (slot_inj _ _ _ _ H1 H2) as Hpi.
-      apply (Proofs.param_index_injective ps None ls x y); auto; unfold frame_vars; simpl; apply memn_In; auto. }
+      apply (Proofs.param_index_injective ps r ls x y); auto. }
     (* phase 2: boxing *)
     assert (Hat1 : at_code s1 pushes boxc (body ++ [IRet])).
     { split; [exact Hcode|]. unfold s1; simpl. unfold pushes. rewrite repeat_length. reflexivity. }
-    destruct (box_loop ps ls svid s1 pushes _ Hat1 (nodupb_NoDup _ Hndsv)) as (stk' & boxes & Hr2 & Hlstk & Hlbx & Hunch & Hbel & Hbox).
+    destruct (box_loop ps r ls svid s1 pushes _ Hat1 (nodupb_NoDup _ Hndsv)) as (stk' & boxes & Hr2 & Hlstk & Hlbx & Hunch & Hbel & Hbox).
     { intros x Hx. destruct (FS x (Hinframe x Hx)) as (i & k & va & w & _ & Hk & Hva & _). exists k, va. auto. }
     { intros x y k Hx Hy. apply Hslotinj; auto. }
     fold boxc in Hr2.
@@ -821,9 +1035,10 @@ Section Full.
     set (e3 := fst (bind_all id frame vals cenv (cells st2))) in *.
     assert (Hcells : snd (bind_all id frame vals cenv (cells st2)) = cells st2 ++ vals) by (apply bind_all_cells; exact Hlvals).
     rewrite Hcells in He.
-    assert (Hoke : env_okA (Some (id, ps, ls, fv)) e3 (sglobals st2) We s2).
-    { split; [|split].
-      - intros id0 ps0 ls0 fv0 Hc x Hm. inversion Hc; subst id0 ps0 ls0 fv0. fold frame in Hm.
+    assert (Hgle : globrel We (sglobals st2) (globals s2)) by exact (globrel_mono W We _ _ HB HEe Hgl).
+    assert (Hoke : env_okA (Some (id, ps, r, live, ls, fv)) e3 We s2).
+    { split.
+      - intros id0 ps0 r0 lr0 ls0 fv0 Hc x Hm. inversion Hc; subst id0 ps0 r0 lr0 ls0 fv0.
         destruct (FS x Hm) as (i & k & va & w & Hi & Hk & Hva & Hw & Hrel & _).
         destruct (bind_all_lookup id frame vals cenv (cells st2) x i Hnd Hlvals Hi) as [Hl Hn].
         fold e3 in Hl.
@@ -845,37 +1060,37 @@ Section Full.
                rewrite (index_of_nth _ _ _ Hi). fold svid. rewrite (memn_false_index_of _ _ Ebx). reflexivity.
             -- exists w. split; [|eapply vrelW_mono; eauto]. simpl. rewrite HWc. rewrite nth_error_app2 by lia.
                replace (length (cells st2) + i - length (cells st2)) with i by lia. exact Hw.
-      - intros id0 ps0 ls0 fv0 Hc. inversion Hc; subst id0 ps0 ls0 fv0. exists els. split.
+      - intros id0 ps0 r0 lr0 ls0 fv0 Hc. inversion Hc; subst id0 ps0 r0 lr0 ls0 fv0. exists els. split.
         + eapply vec_ok_mono; eauto.
         + eapply fvrelW_mono; eauto. unfold fvrelW in *. clear - Hfvr Hown.
           induction Hfvr as [|p v0 fvr elr Hp Hr IHf]; constructor.
           * destruct Hp as (l & Hl & Hv0). exists l. split; auto.
             destruct (Hown p (or_introl eq_refl)) as (m & Hsnd & Hne). destruct p as [px po]. simpl in Hsnd. subst po.
             unfold e3. rewrite bind_all_other_owner by exact Hne. exact Hl.
-          * apply IHf. intros p0 Hin. apply Hown. right; exact Hin.
-      - intros g w Hg. destruct (Hgl g w Hg) as (v0 & Ha & Hv0). exists v0. split; auto. eapply vrelW_mono; eauto. }
+          * apply IHf. intros p0 Hin. apply Hown. right; exact Hin. }
     (* phase 3: the body *)
     assert (Hat2 : at_code s2 (pushes ++ boxc) body [IRet]).
     { split; [|simpl; rewrite app_length; reflexivity]. simpl. rewrite <- app_assoc. exact Hcode. }
     assert (HWhe : wh We = heap s2) by (simpl; rewrite HWh; reflexivity).
     assert (HWce : wc We = cells (mkstore (cells st2 ++ vals) (sglobals st2))) by (simpl; rewrite HWc; reflexivity).
-    destruct (IH b (Some (id, ps, ls, fv)) e3 _ v st' Hfr He true svs' s2 _ _ We Hag Hat2 HWhe HWce HINVe Hoke)
-      as (Hsg & W' & v' & HE' & HWc' & HINV' & Hv' & Hout).
-    split; [exact Hsg|]. exists sc, W', v'. split; [exact Hmc|]. split; [eapply wext_trans; eauto|].
-    split; [exact HWc'|]. split; [exact HINV'|]. split; [exact Hv'|].
+    destruct (IH b (Some (id, ps, r, live, ls, fv)) e3 _ v st' Hfr He true svs' s2 _ _ We Hag Hat2 HWhe HWce HINVe Hoke Hgle)
+      as (W' & v' & g' & HE' & HWc' & HINV' & Hv' & Hg' & Hout).
+    exists sc, W', v', g'. split; [exact Hmc'|].
+    split; [eapply wext_trans; [exact HE0|eapply wext_trans; eauto]|].
+    split; [exact HWc'|]. split; [exact HINV'|]. split; [exact Hv'|]. split; [exact Hg'|].
     (* phase 4: RET *)
-    assert (Hfi1 : frame_info s1 = Some (n, rip, rself, rfp)).
+    assert (Hfi1 : frame_info s1 = Some (nv, rip, rself, rfp)).
     { eapply (frame_info_app sc s1 U); [apply frame_info_entry| |]; reflexivity. }
-    assert (Hfi2 : frame_info s2 = Some (n, rip, rself, rfp)).
+    assert (Hfi2 : frame_info s2 = Some (nv, rip, rself, rfp)).
     { rewrite <- Hfi1. apply frame_info_same; [reflexivity|]. intros t Ht. simpl. apply Hunch.
       intros x Hx E. change (fp s1) with fp1 in E.
       destruct (FS x (Hinframe x Hx)) as (i & k & va & w & _ & Hk & _ & _ & _ & _ & Hne).
       rewrite Hk in E. inversion E. apply (Hne t Ht). exact H0. }
-    assert (Hnfp : n <= fp s2) by (change (fp s2) with fp1; unfold fp1; rewrite app_length; lia).
-    assert (Hbase : below (fp s2 - n) stk' = X).
+    assert (Hnfp : nv <= fp s2) by (change (fp s2) with fp1; lia).
+    assert (Hbase : below (fp s2 - nv) stk' = X).
     { rewrite Hbel.
-      - unfold s1, sc; cbn [stk fp]. change (fp s2) with fp1. unfold fp1. rewrite app_length.
-        replace (length vargs + length X - n) with (length X) by lia.
+      - unfold s1, sc; cbn [stk fp]. change (fp s2) with fp1.
+        replace (fp1 - nv) with (length X) by lia.
         rewrite !app_assoc. apply below_exact.
       - intros x k Hx Hk. change (fp s1) with fp1 in Hk. change (fp s2) with fp1.
         destruct (FS x (Hinframe x Hx)) as (i & k' & va & w & _ & Hk' & _ & _ & _ & Hge & _).
@@ -883,18 +1098,18 @@ Section Full.
     eapply reaches_trans; [exact Hr1|]. eapply reaches_trans; [exact Hr2|].
     destruct Hout as [Hfall | [_ Hret]].
     - eapply reaches_trans; [exact Hfall|].
-      set (se := fallH s2 v' (pushes ++ boxc) body (wh W')) in *.
+      set (se := fallH s2 v' (pushes ++ boxc) body (wh W') g') in *.
       assert (Hate : at_code se ((pushes ++ boxc) ++ body) [IRet] []).
       { split; [|simpl; rewrite !app_length; lia]. simpl. rewrite <- !app_assoc. exact Hcode. }
-      assert (Hfie : frame_info se = Some (n, rip, rself, rfp)).
+      assert (Hfie : frame_info se = Some (nv, rip, rself, rfp)).
       { eapply (frame_info_app s2 se [v']); eauto. }
-      pose proof (step_ret se _ _ v' stk' n rip rself rfp Hate eq_refl Hfie Hnfp) as Hstep.
+      pose proof (step_ret se _ _ v' stk' nv rip rself rfp Hate eq_refl Hfie Hnfp) as Hstep.
       apply reaches_step. etransitivity; [exact Hstep|]. f_equal. f_equal. f_equal.
       change (v' :: stk') with ([v'] ++ stk'). rewrite below_app.
       + exact Hbase.
       + change (fp se) with (fp s2). apply frame_info_lt in Hfi2. simpl in Hfi2. simpl. lia.
-    - specialize (Hret n rip rself rfp Hfi2 Hnfp).
-      replace (mkst (v' :: X) rfp rself rip (wh W') (globals s0)) with (retH s2 v' n rip rself rfp (wh W')); auto.
+    - specialize (Hret nv rip rself rfp Hfi2 Hnfp).
+      replace (mkst (v' :: X) rfp rself rip (wh W') g') with (retH s2 v' nv rip rself rfp (wh W') g'); auto.
       unfold retH. f_equal. f_equal. exact Hbase.
   Qed.
 
@@ -966,47 +1181,47 @@ Section Full.
 
   (** the evaluation continues from a state s2 of the same frame in a later world W1 *)
   Lemma resA_cont : forall tl s s2 pre pre2 c c2 W W1 v st',
-    reaches s s2 -> stk s2 = stk s -> fp s2 = fp s -> self s2 = self s -> globals s2 = globals s ->
+    reaches s s2 -> stk s2 = stk s -> fp s2 = fp s -> self s2 = self s ->
     wext W W1 ->
-    (forall v' h', reaches (fallH s2 v' pre2 c2 h') (fallH s v' pre c h')) ->
+    (forall v' h' g', reaches (fallH s2 v' pre2 c2 h' g') (fallH s v' pre c h' g')) ->
     resA tl s2 pre2 c2 W1 v st' -> resA tl s pre c W v st'.
   Proof.
-    intros tl s s2 pre pre2 c c2 W W1 v st' Hr Hs Hf Hse Hg HE Hcont (W' & v' & HE' & Hc' & HI' & Hv' & Hout).
-    exists W', v'. split; [eapply wext_trans; eauto|]. split; [exact Hc'|]. split; [exact HI'|]. split; [exact Hv'|].
-    eapply outcomeH_lift; eauto.
+    intros tl s s2 pre pre2 c c2 W W1 v st' Hr Hs Hf Hse HE Hcont (W' & v' & g' & HE' & Hc' & HI' & Hv' & Hg' & Hout).
+    exists W', v', g'. split; [eapply wext_trans; eauto|]. split; [exact Hc'|]. split; [exact HI'|]. split; [exact Hv'|].
+    split; [exact Hg'|]. eapply outcomeH_lift; eauto.
   Qed.
 
 
   (* ---------------------------------------------------------------- fetching a variable; the closure fill loop *)
 
-  Lemma gen_fetchA : forall svs id ps ls cfv x m,
-    gen_non_global_ref svs (lctxA (Some (id, ps, ls, cfv))) x (Local m) false =
-    if Nat.eqb m id then [ILocalRef (param_index ps None ls x)] else [IClosureRef (closure_index (x, Local m) cfv)].
+  Lemma gen_fetchA : forall svs id ps r lr ls cfv x m,
+    gen_non_global_ref svs (lctxA (Some (id, ps, r, lr, ls, cfv))) x (Local m) false =
+    if Nat.eqb m id then [ILocalRef (param_index ps r ls x)] else [IClosureRef (closure_index (x, Local m) cfv)].
   Proof. intros. unfold gen_non_global_ref. simpl. destruct (Nat.eqb m id); reflexivity. Qed.
 
   Lemma gen_fetchA_length : forall svs cur x m, resolvableA cur x m = true ->
     length (gen_non_global_ref svs (lctxA cur) x (Local m) false) = 1.
   Proof.
-    intros svs [[[[id ps] ls] cfv]|] x m Hr; simpl in Hr; try discriminate.
+    intros svs [[[[[[id ps] r] lr] ls] cfv]|] x m Hr; simpl in Hr; try discriminate.
     rewrite gen_fetchA. destruct (Nat.eqb m id); reflexivity.
   Qed.
 
-  Lemma fetch_varA : forall cur env sg W0 s0 svs s vs hx x m pre post,
-    env_okA cur env sg W0 s0 -> resolvableA cur x m = true ->
+  Lemma fetch_varA : forall cur env W0 s0 svs s vs hx x m pre post,
+    env_okA cur env W0 s0 -> resolvableA cur x m = true ->
     fp s = fp s0 -> self s = self s0 -> stk s = vs ++ stk s0 -> heap s = wh W0 ++ hx ->
     at_code s pre (gen_non_global_ref svs (lctxA cur) x (Local m) false) post ->
     exists v l, env_lookup (x, Local m) env = Some l /\ varrel W0 (x, Local m) l v /\
                 step s = Next (upd s (v :: stk s) (S (ip s)) (heap s)).
   Proof.
-    intros cur env sg W0 s0 svs s vs hx x m pre post (HP & HV & _) Hr Hfp Hself Hstk Hheap Hat.
-    destruct cur as [[[[id ps] ls] cfv]|]; simpl in Hr; try discriminate.
+    intros cur env W0 s0 svs s vs hx x m pre post (HP & HV) Hr Hfp Hself Hstk Hheap Hat.
+    destruct cur as [[[[[[id ps] r] lr] ls] cfv]|]; simpl in Hr; try discriminate.
     rewrite gen_fetchA in Hat.
     destruct (Nat.eqb m id) eqn:Em.
     - apply Nat.eqb_eq in Em. subst m.
-      destruct (HP id ps ls cfv eq_refl x Hr) as (l & k & v & Hl & Hs & Hg & Hv).
+      destruct (HP id ps r lr ls cfv eq_refl x Hr) as (l & k & v & Hl & Hs & Hg & Hv).
       exists v, l. repeat split; auto.
       eapply step_local_ref; eauto; [rewrite Hfp; exact Hs | rewrite Hstk; apply sget_app; exact Hg].
-    - destruct (HV id ps ls cfv eq_refl) as (els & Hvo & Hfv).
+    - destruct (HV id ps r lr ls cfv eq_refl) as (els & Hvo & Hfv).
       pose proof (closure_index_nth _ _ Hr) as Hidx.
       destruct cfv as [|p0 cfv']; [discriminate Hr|].
       destruct Hvo as (a & Hvars & Hha & _).
@@ -1017,7 +1232,7 @@ Section Full.
       + rewrite Hheap. rewrite nth_error_app1; auto. apply nth_error_Some. congruence.
   Qed.
 
-  Lemma fill_loopA : forall cur env sg W0 s0 svs newid, env_okA cur env sg W0 s0 ->
+  Lemma fill_loopA : forall cur env W0 s0 svs newid, env_okA cur env W0 s0 ->
     forall fvs k els s pre post a,
     fv_okA cur newid fvs = true ->
     at_code s pre (closure_fill svs (lctxA cur) k fvs) post ->
@@ -1029,7 +1244,7 @@ Section Full.
                      (wh W0 ++ [HVec (firstn k els ++ vals)]))
       /\ fvrelW W0 env fvs vals.
   Proof.
-    intros cur env sg W0 s0 svs newid Hok fvs.
+    intros cur env W0 s0 svs newid Hok fvs.
     induction fvs as [|[x o] rest IH]; intros k els s pre post a Hfv Hat Hfp Hself Hstk Ha Hheap Hlen.
     - exists []. split; [|constructor]. simpl in *. destruct Hat as [_ Hip].
       assert (k = length els) by lia. subst k. rewrite firstn_all, app_nil_r, Nat.add_0_r.
@@ -1043,7 +1258,7 @@ Section Full.
       destruct Hat as [Hcode Hip].
       assert (Hat1 : at_code s pre cf (([IPush (LInt (Z.of_nat k)); IStackRef 3; IVectorSet] ++ cr) ++ post)).
       { split; auto; rewrite Hcode; norm_code. }
-      destruct (fetch_varA cur env sg W0 s0 svs s [VVec a] [HVec els] x m pre _ Hok Hres Hfp Hself Hstk Hheap Hat1)
+      destruct (fetch_varA cur env W0 s0 svs s [VVec a] [HVec els] x m pre _ Hok Hres Hfp Hself Hstk Hheap Hat1)
         as (v & l & Hl & Hrel & Hstep1).
       set (s1 := upd s (v :: stk s) (S (ip s)) (heap s)) in *.
       assert (Hat2 : at_code s1 (pre ++ cf) [IPush (LInt (Z.of_nat k))] ([IStackRef 3; IVectorSet] ++ cr ++ post)).
@@ -1095,14 +1310,14 @@ Section Full.
     evlist (eval f) (rev args) env st = inl (rvs, st1) ->
     forall svs s pre post W, agrees svs ->
     at_code s pre (gen_args svs (lctxA cur) args) post ->
-    wh W = heap s -> wc W = cells st -> WINV W -> env_okA cur env (sglobals st) W s ->
-    sglobals st1 = sglobals st /\
-    exists W1 vargs, wext W W1 /\ wc W1 = cells st1 /\ WINV W1 /\ Forall2 (vrelW W1) vargs (rev rvs) /\
-      reaches s (upd s (vargs ++ stk s) (length pre + length (gen_args svs (lctxA cur) args)) (wh W1)).
+    wh W = heap s -> wc W = cells st -> WINV W -> env_okA cur env W s -> globrel W (sglobals st) (globals s) ->
+    exists W1 vargs g1, wext W W1 /\ wc W1 = cells st1 /\ WINV W1 /\ Forall2 (vrelW W1) vargs (rev rvs) /\
+      globrel W1 (sglobals st1) g1 /\
+      reaches s (updg s (vargs ++ stk s) (length pre + length (gen_args svs (lctxA cur) args)) (wh W1) g1).
   Proof.
-    intros f IH cur args. induction args as [|a r IHr]; intros env st rvs st1 Hp He svs s pre post W Hag Hat HWh HWc HI Hok.
-    - simpl in He. inversion He; subst. split; auto. exists W, []. pose proof HI as (HB & _).
-      split; [apply wext_refl; auto|]. split; auto. split; auto. split; [constructor|].
+    intros f IH cur args. induction args as [|a r IHr]; intros env st rvs st1 Hp He svs s pre post W Hag Hat HWh HWc HI Hok Hgl.
+    - simpl in He. inversion He; subst. exists W, [], (globals s). pose proof HI as (HB & _).
+      split; [apply wext_refl; auto|]. split; auto. split; auto. split; [constructor|]. split; [exact Hgl|].
       destruct Hat as [_ Hip]. simpl. rewrite Nat.add_0_r, <- Hip, HWh. destruct s; apply reaches_refl.
     - simpl in Hp. apply andb_true_iff in Hp. destruct Hp as [Hpa Hpr].
       simpl rev in He. rewrite evlist_app in He.
@@ -1115,24 +1330,24 @@ Section Full.
       set (cr := gen_args svs (lctxA cur) r) in *. set (ca := generate false svs (lctxA cur) a) in *.
       destruct Hat as [Hcode Hip].
       assert (Hat1 : at_code s pre cr (ca ++ post)) by (split; auto; rewrite Hcode; norm_code).
-      destruct (IHr env st rvs_r st_r Hpr Er svs s pre _ W Hag Hat1 HWh HWc HI Hok) as (Hsg1 & W1 & vr & HE1 & HWc1 & HI1 & Hvr & Hr1).
-      fold cr in Hr1. set (s1 := upd s (vr ++ stk s) (length pre + length cr) (wh W1)) in *.
+      destruct (IHr env st rvs_r st_r Hpr Er svs s pre _ W Hag Hat1 HWh HWc HI Hok Hgl) as (W1 & vr & g1 & HE1 & HWc1 & HI1 & Hvr & Hg1 & Hr1).
+      fold cr in Hr1. set (s1 := updg s (vr ++ stk s) (length pre + length cr) (wh W1) g1) in *.
       assert (Hat2 : at_code s1 (pre ++ cr) ca post).
       { split; simpl; [|rewrite app_length; reflexivity]. rewrite Hcode. norm_code. }
       pose proof HI as (HB & _).
-      assert (Hok1 : env_okA cur env (sglobals st_r) W1 s1).
-      { rewrite Hsg1. eapply (env_okA_mono cur env _ W W1 s s1 vr); eauto. }
-      destruct (IH a cur env st_r wa st_a Hpa Ea false svs s1 _ _ W1 Hag Hat2 eq_refl HWc1 HI1 Hok1)
-        as (Hsg2 & W2 & va & HE2 & HWc2 & HI2 & Hva & Hout).
+      assert (Hok1 : env_okA cur env W1 s1).
+      { eapply (env_okA_mono cur env W W1 s s1 vr); eauto. }
+      destruct (IH a cur env st_r wa st_a Hpa Ea false svs s1 _ _ W1 Hag Hat2 eq_refl HWc1 HI1 Hok1 Hg1)
+        as (W2 & va & g2 & HE2 & HWc2 & HI2 & Hva & Hg2 & Hout).
       apply outcomeH_false in Hout. fold ca in Hout.
-      split; [congruence|]. exists W2, (va :: vr).
-      split; [eapply wext_trans; eauto|]. split; [exact HWc2|]. split; [exact HI2|]. split.
+      exists W2, (va :: vr), g2.
+      split; [eapply wext_trans; eauto|]. split; [exact HWc2|]. split; [exact HI2|]. split; [|split; [exact Hg2|]].
       + rewrite rev_app_distr. simpl. constructor; auto.
         pose proof HI1 as (HB1 & _). eapply Forall2_vrelW_mono; eauto.
       + eapply reaches_trans; [exact Hr1|]. eapply reaches_trans; [exact Hout|].
-        replace (fallH s1 va (pre ++ cr) ca (wh W2))
-          with (upd s ((va :: vr) ++ stk s) (length pre + length (cr ++ ca)) (wh W2)); [apply reaches_refl|].
-        unfold fallH, upd; simpl. f_equal. solve_len.
+        replace (fallH s1 va (pre ++ cr) ca (wh W2) g2)
+          with (updg s ((va :: vr) ++ stk s) (length pre + length (cr ++ ca)) (wh W2) g2); [apply reaches_refl|].
+        unfold fallH, updg; simpl. f_equal. solve_len.
   Qed.
 
   (* ---------------------------------------------------------------- assignment *)
@@ -1153,61 +1368,88 @@ Section Full.
     end.
   Proof. reflexivity. Qed.
 
-  Definition set_coreA (svs : nat -> list name) (cur : fctxA) (x : name) (m : nat) (e1 : ast) : code :=
-    generate false svs (lctxA cur) e1 ++ gen_non_global_ref svs (lctxA cur) x (Local m) false ++ [ISetCdr].
+  Definition set_coreA (svs : nat -> list name) (cur : fctxA) (x : name) (o : loc) (e1 : ast) : code :=
+    generate false svs (lctxA cur) e1
+    ++ match o with Local m => gen_non_global_ref svs (lctxA cur) x (Local m) false | Global => [IPushCell x] end
+    ++ [ISetCdr].
 
-  Lemma generate_SetVA : forall tl svs cur x m e1, agrees svs -> fragA cur (SetV x (Local m) e1) = true ->
-    generate tl svs (lctxA cur) (SetV x (Local m) e1) = set_coreA svs cur x m e1 ++ [IPush LVoid].
+  Lemma generate_SetVA : forall tl svs cur x o e1, agrees svs -> fragA cur (SetV x o e1) = true ->
+    generate tl svs (lctxA cur) (SetV x o e1) = set_coreA svs cur x o e1 ++ [IPush LVoid].
   Proof.
-    intros tl svs cur x m e1 Hag H. simpl in H. apply andb_true_iff in H. destruct H as [H _].
-    apply andb_true_iff in H. destruct H as [Hres Hbx]. unfold boxedv in Hbx.
-    destruct cur as [[[[id ps] ls] cfv]|]; [|discriminate Hres].
-    unfold set_coreA. simpl. rewrite (Hag m), Hbx. unfold gen_ref. rewrite <- !app_assoc. reflexivity.
+    intros tl svs cur x [|m] e1 Hag H.
+    - unfold set_coreA. simpl. rewrite <- !app_assoc. reflexivity.
+    - simpl in H. apply andb_true_iff in H. destruct H as [H _].
+      apply andb_true_iff in H. destruct H as [Hres Hbx]. unfold boxedv in Hbx.
+      destruct cur as [[[[[[id ps] r] lr] ls] cfv]|]; [|discriminate Hres].
+      unfold set_coreA. simpl. rewrite (Hag m), Hbx. unfold gen_ref. rewrite <- !app_assoc. reflexivity.
   Qed.
 
   Lemma core_stepA : forall f, (forall e, simA_at f e) ->
-    forall cur x m e1 env st v st', fragA cur (SetV x (Local m) e1) = true ->
-    eval (S f) (SetV x (Local m) e1) env st = SVal v st' ->
+    forall cur x o e1 env st v st', fragA cur (SetV x o e1) = true ->
+    eval (S f) (SetV x o e1) env st = SVal v st' ->
     forall svs s pre post W, agrees svs ->
-    at_code s pre (set_coreA svs cur x m e1) post ->
-    wh W = heap s -> wc W = cells st -> WINV W -> env_okA cur env (sglobals st) W s ->
-    v = SLit LVoid /\ sglobals st' = sglobals st /\
-    exists W', wext W W' /\ wc W' = cells st' /\ WINV W' /\
-               reaches s (upd s (stk s) (length pre + length (set_coreA svs cur x m e1)) (wh W')).
+    at_code s pre (set_coreA svs cur x o e1) post ->
+    wh W = heap s -> wc W = cells st -> WINV W -> env_okA cur env W s -> globrel W (sglobals st) (globals s) ->
+    v = SLit LVoid /\
+    exists W' g', wext W W' /\ wc W' = cells st' /\ WINV W' /\ globrel W' (sglobals st') g' /\
+               reaches s (updg s (stk s) (length pre + length (set_coreA svs cur x o e1)) (wh W') g').
   Proof.
-    intros f IH cur x m e1 env st v st' Hp He svs s pre post W Hag Hat HWh HWc HI Hok.
+    intros f IH cur x o e1 env st v st' Hp He svs s pre post W Hag Hat HWh HWc HI Hok Hgl.
     rewrite eval_SetVA in He.
     destruct (eval f e1 env st) as [w1 st1| |] eqn:E1; try discriminate.
-    simpl in Hp. apply andb_true_iff in Hp. destruct Hp as [Hp Hp1]. apply andb_true_iff in Hp. destruct Hp as [Hres Hbx].
-    unfold set_coreA in *.
-    set (c1 := generate false svs (lctxA cur) e1) in *.
-    set (cf := gen_non_global_ref svs (lctxA cur) x (Local m) false) in *.
-    assert (Hcfl : length cf = 1) by (apply gen_fetchA_length; auto).
-    destruct Hat as [Hcode Hip].
-    assert (Hat1 : at_code s pre c1 ((cf ++ [ISetCdr]) ++ post)) by (split; auto; rewrite Hcode; norm_code).
-    destruct (IH e1 cur env st w1 st1 Hp1 E1 false svs s pre _ W Hag Hat1 HWh HWc HI Hok)
-      as (Hsg1 & W1 & v1 & HE1 & HWc1 & HI1 & Hv1 & Hout1).
-    apply outcomeH_false in Hout1. fold c1 in Hout1. set (s1 := fallH s v1 pre c1 (wh W1)) in *.
     pose proof HI as (HB & _).
-    assert (Hok1 : env_okA cur env (sglobals st) W1 s1) by (eapply (env_okA_mono cur env _ W W1 s s1 [v1]); eauto).
-    assert (Hat2 : at_code s1 (pre ++ c1) cf ([ISetCdr] ++ post)).
-    { split; simpl; [|rewrite app_length; reflexivity]. rewrite Hcode. norm_code. }
-    destruct (fetch_varA cur env _ W1 s1 svs s1 [] [] x m _ _ Hok1 Hres eq_refl eq_refl eq_refl
-                (eq_sym (app_nil_r _)) Hat2) as (vb & l & Hl & Hvr & Hstep2).
-    destruct Hvr as (m' & Hm' & [(_ & bx & -> & Hwb) | (Hnb & _)]); simpl in Hm'; inversion Hm'; subst m';
-      [|unfold boxedv in *; simpl in Hnb; congruence].
-    rewrite Hl in He. inversion He; subst v st'. split; auto. split; [simpl; exact Hsg1|].
-    destruct HI1 as (HB1 & HI1b & HJ1). destruct (HI1b l bx Hwb) as (nm & vold & wold & Hhb & Hcl & _).
-    set (s2 := upd s1 (VPair bx :: stk s1) (S (ip s1)) (heap s1)) in *.
-    assert (Hat3 : at_code s2 (pre ++ c1 ++ cf) [ISetCdr] post).
-    { split; simpl; [|solve_len]. rewrite Hcode. norm_code. }
-    pose proof (step_set_cdr_box s2 _ _ bx v1 (stk s) nm vold Hat3 eq_refl Hhb) as Hstep3.
-    set (W2 := wset W1 l bx nm v1 w1).
-    exists W2. split; [eapply wext_trans; [exact HE1|apply wset_ext; auto]|].
-    split; [simpl; rewrite HWc1; reflexivity|].
-    split; [apply wset_INV; auto; split; auto|].
-    eapply reaches_trans; [exact Hout1|]. eapply reaches_trans; [apply reaches_step; exact Hstep2|].
-    apply reaches_step. etransitivity; [exact Hstep3|]. unfold upd; simpl. f_equal. f_equal. solve_len.
+    destruct o as [|m].
+    - (* a global: PUSH its cell, SET-CDR *)
+      simpl in Hp. inversion He; subst v st'. split; auto.
+      unfold set_coreA in *.
+      set (c1 := generate false svs (lctxA cur) e1) in *.
+      destruct Hat as [Hcode Hip].
+      assert (Hat1 : at_code s pre c1 (([IPushCell x] ++ [ISetCdr]) ++ post)) by (split; auto; rewrite Hcode; norm_code).
+      destruct (IH e1 cur env st w1 st1 Hp E1 false svs s pre _ W Hag Hat1 HWh HWc HI Hok Hgl)
+        as (W1 & v1 & g1 & HE1 & HWc1 & HI1 & Hv1 & Hg1 & Hout1).
+      apply outcomeH_false in Hout1. fold c1 in Hout1. set (s1 := fallH s v1 pre c1 (wh W1) g1) in *.
+      assert (Hat2 : at_code s1 (pre ++ c1) [IPushCell x] ([ISetCdr] ++ post)).
+      { split; simpl; [|rewrite app_length; reflexivity]. rewrite Hcode. norm_code. }
+      pose proof (step_push_cell s1 _ _ _ Hat2) as Hstep2.
+      set (s2 := upd s1 (VCell x :: stk s1) (S (ip s1)) (heap s1)) in *.
+      assert (Hat3 : at_code s2 (pre ++ c1 ++ [IPushCell x]) [ISetCdr] post).
+      { split; simpl; [|solve_len]. rewrite Hcode. norm_code. }
+      pose proof (step_set_cdr_cell s2 _ _ x v1 (stk s) Hat3 eq_refl) as Hstep3.
+      exists W1, (assoc_set x v1 g1). split; [exact HE1|]. split; [exact HWc1|]. split; [exact HI1|].
+      split; [simpl; apply globrel_set; assumption|].
+      eapply reaches_trans; [exact Hout1|]. eapply reaches_trans; [apply reaches_step; exact Hstep2|].
+      apply reaches_step. etransitivity; [exact Hstep3|]. unfold updg; simpl. f_equal. f_equal. solve_len.
+    - simpl in Hp. apply andb_true_iff in Hp. destruct Hp as [Hp Hp1]. apply andb_true_iff in Hp. destruct Hp as [Hres Hbx].
+      unfold set_coreA in *.
+      set (c1 := generate false svs (lctxA cur) e1) in *.
+      set (cf := gen_non_global_ref svs (lctxA cur) x (Local m) false) in *.
+      assert (Hcfl : length cf = 1) by (apply gen_fetchA_length; auto).
+      destruct Hat as [Hcode Hip].
+      assert (Hat1 : at_code s pre c1 ((cf ++ [ISetCdr]) ++ post)) by (split; auto; rewrite Hcode; norm_code).
+      destruct (IH e1 cur env st w1 st1 Hp1 E1 false svs s pre _ W Hag Hat1 HWh HWc HI Hok Hgl)
+        as (W1 & v1 & g1 & HE1 & HWc1 & HI1 & Hv1 & Hg1 & Hout1).
+      apply outcomeH_false in Hout1. fold c1 in Hout1. set (s1 := fallH s v1 pre c1 (wh W1) g1) in *.
+      assert (Hok1 : env_okA cur env W1 s1) by (eapply (env_okA_mono cur env W W1 s s1 [v1]); eauto).
+      assert (Hat2 : at_code s1 (pre ++ c1) cf ([ISetCdr] ++ post)).
+      { split; simpl; [|rewrite app_length; reflexivity]. rewrite Hcode. norm_code. }
+      destruct (fetch_varA cur env W1 s1 svs s1 [] [] x m _ _ Hok1 Hres eq_refl eq_refl eq_refl
+                  (eq_sym (app_nil_r _)) Hat2) as (vb & l & Hl & Hvr & Hstep2).
+      destruct Hvr as (m' & Hm' & [(_ & bx & -> & Hwb) | (Hnb & _)]); simpl in Hm'; inversion Hm'; subst m';
+        [|unfold boxedv in *; simpl in Hnb; congruence].
+      rewrite Hl in He. inversion He; subst v st'. split; auto.
+      pose proof HI1 as (HB1 & HI1b & HJ1). destruct (HI1b l bx Hwb) as (nm & vold & wold & Hhb & Hcl & _).
+      set (s2 := upd s1 (VPair bx :: stk s1) (S (ip s1)) (heap s1)) in *.
+      assert (Hat3 : at_code s2 (pre ++ c1 ++ cf) [ISetCdr] post).
+      { split; simpl; [|solve_len]. rewrite Hcode. norm_code. }
+      pose proof (step_set_cdr_box s2 _ _ bx v1 (stk s) nm vold Hat3 eq_refl Hhb) as Hstep3.
+      set (W2 := wset W1 l bx nm v1 w1).
+      assert (HE2 : wext W1 W2) by (apply wset_ext; auto).
+      exists W2, g1. split; [eapply wext_trans; [exact HE1|exact HE2]|].
+      split; [simpl; rewrite HWc1; reflexivity|].
+      split; [apply wset_INV; auto|].
+      split; [simpl; exact (globrel_mono W1 W2 _ _ HB1 HE2 Hg1)|].
+      eapply reaches_trans; [exact Hout1|]. eapply reaches_trans; [apply reaches_step; exact Hstep2|].
+      apply reaches_step. etransitivity; [exact Hstep3|]. unfold updg, upd; simpl. f_equal. f_equal. solve_len.
   Qed.
 
 
@@ -1218,10 +1460,10 @@ Section Full.
     eval_seq f env es st = SVal v st' ->
     forall tl svs s pre post W, agrees svs ->
     at_code s pre (gen_seq tl svs (lctxA cur) es) post ->
-    wh W = heap s -> wc W = cells st -> WINV W -> env_okA cur env (sglobals st) W s ->
-    sglobals st' = sglobals st /\ resA tl s pre (gen_seq tl svs (lctxA cur) es) W v st'.
+    wh W = heap s -> wc W = cells st -> WINV W -> env_okA cur env W s -> globrel W (sglobals st) (globals s) ->
+    resA tl s pre (gen_seq tl svs (lctxA cur) es) W v st'.
   Proof.
-    intros f IHle cur es. induction es as [|a r IHr]; intros env st v st' Hne Hp He tl svs s pre post W Hag Hat HWh HWc HI Hok.
+    intros f IHle cur es. induction es as [|a r IHr]; intros env st v st' Hne Hp He tl svs s pre post W Hag Hat HWh HWc HI Hok Hgl.
     - congruence.
     - simpl in Hp. apply andb_true_iff in Hp. destruct Hp as [Hpa Hpr].
       destruct r as [|b r'].
@@ -1236,108 +1478,116 @@ Section Full.
         pose proof HI as (HB & _).
         destruct Hat as [Hcode Hip].
         (* the rest of the sequence from a state with the stack of s *)
-        assert (Hcont : forall ca W1, code_of (self s) = pre ++ (ca ++ cr) ++ post ->
-                  reaches s (upd s (stk s) (length pre + length ca) (wh W1)) ->
-                  wext W W1 -> wc W1 = cells st1 -> WINV W1 -> sglobals st1 = sglobals st ->
-                  sglobals st' = sglobals st /\ resA tl s pre (ca ++ cr) W v st').
-        { intros ca W1 Hcode1 Hreach HE1 HWc1 HI1 Hsg1.
-          set (s2 := upd s (stk s) (length pre + length ca) (wh W1)) in *.
+        assert (Hcont : forall ca W1 g1, code_of (self s) = pre ++ (ca ++ cr) ++ post ->
+                  reaches s (updg s (stk s) (length pre + length ca) (wh W1) g1) ->
+                  wext W W1 -> wc W1 = cells st1 -> WINV W1 -> globrel W1 (sglobals st1) g1 ->
+                  resA tl s pre (ca ++ cr) W v st').
+        { intros ca W1 g1 Hcode1 Hreach HE1 HWc1 HI1 Hg1.
+          set (s2 := updg s (stk s) (length pre + length ca) (wh W1) g1) in *.
           assert (Hat3 : at_code s2 (pre ++ ca) cr post).
           { split; simpl; [|solve_len]. rewrite Hcode1. norm_code. }
-          assert (Hok2 : env_okA cur env (sglobals st1) W1 s2).
-          { rewrite Hsg1. eapply (env_okA_mono cur env _ W W1 s s2 []); eauto. }
-          destruct (IHr env st1 v st' Hne2 Hpr He tl svs s2 _ post W1 Hag Hat3 eq_refl HWc1 HI1 Hok2) as (Hsg2 & Hres).
-          split; [congruence|]. fold cr in Hres.
+          assert (Hok2 : env_okA cur env W1 s2).
+          { eapply (env_okA_mono cur env W W1 s s2 []); eauto. }
+          pose proof (IHr env st1 v st' Hne2 Hpr He tl svs s2 _ post W1 Hag Hat3 eq_refl HWc1 HI1 Hok2 Hg1) as Hres.
+          fold cr in Hres.
           eapply (resA_cont tl s s2 pre (pre ++ ca) (ca ++ cr) cr W W1); eauto.
-          intros v0 h0. rewrite (fallH_eq s s2 v0 pre (pre ++ ca) (ca ++ cr) cr h0); auto; [apply reaches_refl | solve_len]. }
+          intros v0 h0 g0. rewrite (fallH_eq s s2 v0 pre (pre ++ ca) (ca ++ cr) cr h0 g0); auto; [apply reaches_refl | solve_len]. }
         destruct (is_lit a) eqn:La.
         * destruct a; try discriminate La. destruct f; [discriminate Ea|]. rewrite eval_Lit in Ea. inversion Ea; subst st1.
-          assert (Hre : reaches s (upd s (stk s) (length pre + length (@nil instr)) (wh W))).
+          assert (Hre : reaches s (updg s (stk s) (length pre + length (@nil instr)) (wh W) (globals s))).
           { simpl. rewrite Nat.add_0_r, <- Hip, HWh. destruct s; apply reaches_refl. }
-          exact (Hcont [] W Hcode Hre (wext_refl W HB) HWc HI eq_refl).
+          exact (Hcont [] W (globals s) Hcode Hre (wext_refl W HB) HWc HI Hgl).
         * destruct (is_set_or_lit a) eqn:Esl.
           -- (* a set!: the trailing PUSH is rewound *)
              destruct a as [l | x o | x o e1 | | | | | ]; try discriminate Esl; try discriminate La.
-             destruct o as [|m]; [discriminate Hpa|].
-             assert (Hd : drop_prev (SetV x (Local m) e1) (generate false svs (lctxA cur) (SetV x (Local m) e1))
-                          = set_coreA svs cur x m e1).
+             assert (Hd : drop_prev (SetV x o e1) (generate false svs (lctxA cur) (SetV x o e1))
+                          = set_coreA svs cur x o e1).
              { unfold drop_prev. simpl is_set_or_lit. cbv iota. rewrite generate_SetVA by auto. apply removelast_last. }
-             rewrite Hd in *. set (ca := set_coreA svs cur x m e1) in *.
+             rewrite Hd in *. set (ca := set_coreA svs cur x o e1) in *.
              destruct f as [|f0]; [discriminate Ea|].
              assert (Hat1 : at_code s pre ca (cr ++ post)) by (split; auto; rewrite Hcode; norm_code).
              assert (IH0 : forall e, simA_at f0 e) by (intro e; apply IHle; lia).
-             destruct (core_stepA f0 IH0 cur x m e1 env st va st1 Hpa Ea svs s pre _ W Hag Hat1 HWh HWc HI Hok)
-               as (_ & Hsg1 & W1 & HE1 & HWc1 & HI1 & Hreach).
+             destruct (core_stepA f0 IH0 cur x o e1 env st va st1 Hpa Ea svs s pre _ W Hag Hat1 HWh HWc HI Hok Hgl)
+               as (_ & W1 & g1 & HE1 & HWc1 & HI1 & Hg1 & Hreach).
              assert (Hc1 : code_of (self s) = pre ++ (ca ++ cr) ++ post) by (rewrite Hcode; norm_code).
-             exact (Hcont ca W1 Hc1 Hreach HE1 HWc1 HI1 Hsg1).
+             exact (Hcont ca W1 g1 Hc1 Hreach HE1 HWc1 HI1 Hg1).
           -- (* any other expression: evaluated, dropped *)
              assert (Hd : drop_prev a (generate false svs (lctxA cur) a) = generate false svs (lctxA cur) a ++ [IDrop]).
              { unfold drop_prev. rewrite Esl. reflexivity. }
              rewrite Hd in *. set (ca := generate false svs (lctxA cur) a) in *.
              assert (Hat1 : at_code s pre ca ([IDrop] ++ cr ++ post)) by (split; auto; rewrite Hcode; norm_code).
-             destruct (IHle f (le_n f) a cur env st va st1 Hpa Ea false svs s pre _ W Hag Hat1 HWh HWc HI Hok)
-               as (Hsg1 & W1 & v1 & HE1 & HWc1 & HI1 & Hv1 & Hout1).
-             apply outcomeH_false in Hout1. fold ca in Hout1. set (s1 := fallH s v1 pre ca (wh W1)) in *.
+             destruct (IHle f (le_n f) a cur env st va st1 Hpa Ea false svs s pre _ W Hag Hat1 HWh HWc HI Hok Hgl)
+               as (W1 & v1 & g1 & HE1 & HWc1 & HI1 & Hv1 & Hg1 & Hout1).
+             apply outcomeH_false in Hout1. fold ca in Hout1. set (s1 := fallH s v1 pre ca (wh W1) g1) in *.
              assert (Hat2 : at_code s1 (pre ++ ca) [IDrop] (cr ++ post)).
              { split; simpl; [|rewrite app_length; reflexivity]. rewrite Hcode. norm_code. }
              pose proof (step_drop s1 _ _ v1 (stk s) Hat2 eq_refl) as Hstep.
              assert (Hc1 : code_of (self s) = pre ++ ((ca ++ [IDrop]) ++ cr) ++ post) by (rewrite Hcode; norm_code).
-             assert (Hre : reaches s (upd s (stk s) (length pre + length (ca ++ [IDrop])) (wh W1))).
+             assert (Hre : reaches s (updg s (stk s) (length pre + length (ca ++ [IDrop])) (wh W1) g1)).
              { eapply reaches_trans; [exact Hout1|]. apply reaches_step. etransitivity; [exact Hstep|].
-               unfold upd; simpl. f_equal. f_equal. solve_len. }
-             exact (Hcont (ca ++ [IDrop]) W1 Hc1 Hre HE1 HWc1 HI1 Hsg1).
+               unfold updg, upd; simpl. f_equal. f_equal. solve_len. }
+             exact (Hcont (ca ++ [IDrop]) W1 g1 Hc1 Hre HE1 HWc1 HI1 Hg1).
   Qed.
 
 
   (* ---------------------------------------------------------------- the main induction *)
 
-  Lemma generate_Lam_A : forall tl svs cur id ps ls fv b,
-    generate tl svs cur (Lam id ps None ls (SV id) fv b) =
-    let body := entryA (fun m => if Nat.eqb m id then SV id else svs m) id ps ls fv b in
+  Lemma generate_Lam_A : forall tl svs cur id ps r ls fv b,
+    generate tl svs cur (Lam id ps r ls (SV id) fv b) =
+    let body := entryA (fun m => if Nat.eqb m id then SV id else svs m) id ps r ls fv b in
     match fv with
-    | [] => [IPushProc 0 (length ps) body]
+    | [] => [IPushProc (lam_flags id r b) (length ps) body]
     | _ :: _ => [IPush LVoid; IPush (LInt (Z.of_nat (length fv))); IMakeVector]
-                ++ closure_fill svs cur 0 fv ++ [IMakeProc 0 (length ps) body]
+                ++ closure_fill svs cur 0 fv ++ [IMakeProc (lam_flags id r b) (length ps) body]
     end.
+
   Proof. intros. destruct fv; reflexivity. Qed.
 
+  Lemma fragA_Lam : forall cur id ps r ls sv fv b,
+    fragA cur (Lam id ps r ls sv fv b) =
+    nodupb (frame_vars ps r ls) && names_eqb sv (SV id) && nodupb sv
+    && forallb (fun x => memn x (ps ++ live_of id r b ++ ls)) sv
+    && fv_okA cur id fv && fragA (Some (id, ps, r, live_of id r b, ls, fv)) b.
+  Proof. reflexivity. Qed.
+
   Lemma vrelW_clo_inv : forall W v id ps r ls b cenv, vrelW W v (SClo id ps r ls b cenv) ->
-    r = None /\ nodupb (ps ++ ls) = true /\ nodupb (SV id) = true /\
-    forallb (fun x => memn x (ps ++ ls)) (SV id) = true /\
+    nodupb (frame_vars ps r ls) = true /\ nodupb (SV id) = true /\
+    forallb (fun x => memn x (ps ++ live_of id r b ++ ls)) (SV id) = true /\
     exists fv svs' vars els,
-      fragA (Some (id, ps, ls, fv)) b = true /\ agrees svs' /\
+      fragA (Some (id, ps, r, live_of id r b, ls, fv)) b = true /\ agrees svs' /\
       (forall p, In p fv -> exists m, snd p = Local m /\ m <> id) /\
       vec_ok W fv vars els /\ fvrelW W cenv fv els /\
-      v = VProc 0 (length ps) (entryA svs' id ps ls fv b) vars.
+      v = VProc (lam_flags id r b) (length ps) (entryA svs' id ps r ls fv b) vars.
   Proof.
     intros W v id ps r ls b cenv H.
-    inversion H as [| | id0 ps0 ls0 b0 cenv0 fv svs' vars els Hnd Hndsv Hsvin Hfr Hag Hown Hvec HF]; subst.
-    split; [reflexivity|]. split; [exact Hnd|]. split; [exact Hndsv|]. split; [exact Hsvin|].
+    inversion H as [| | id0 ps0 r0 ls0 b0 cenv0 fv svs' vars els Hnd Hndsv Hsvin Hfr Hag Hown Hvec HF]; subst.
+    split; [exact Hnd|]. split; [exact Hndsv|]. split; [exact Hsvin|].
     exists fv, svs', vars, els. split; [exact Hfr|]. split; [exact Hag|]. split; [exact Hown|]. split; [exact Hvec|].
     split; [apply fvrelW_of_clo; exact HF | reflexivity].
   Qed.
 
   Lemma simA_step : forall f, (forall f', f' <= f -> forall e, simA_at f' e) -> forall e, simA_at (S f) e.
   Proof.
-    intros f IHle e cur env st v st' Hp He tl svs s pre post W Hag Hat HWh HWc HI Hok.
+    intros f IHle e cur env st v st' Hp He tl svs s pre post W Hag Hat HWh HWc HI Hok Hgl.
     assert (IH : forall e, simA_at f e) by (intro e0; apply IHle; lia).
     pose proof HI as (HB & HIb & HIj).
     destruct e as [l | x o | x o e1 | t p e2 | es | id ps r ls sv fv b | g args | p args]; try discriminate Hp.
     - (* Lit *)
-      rewrite eval_Lit in He. inversion He; subst. split; auto.
-      exists W, (VLit (lit_value l)). split; [apply wext_refl; auto|]. split; auto. split; auto. split; [constructor|].
+      rewrite eval_Lit in He. inversion He; subst.
+      exists W, (VLit (lit_value l)), (globals s). split; [apply wext_refl; auto|]. split; auto. split; auto. split; [constructor|].
+      split; [exact Hgl|].
       simpl generate in *. rewrite HWh. eapply leafH; eauto. eapply step_push; eauto.
     - (* Ref *)
       destruct o as [|m].
       + rewrite eval_Ref_global in He. destruct (glob_lookup x (sglobals st)) as [w|] eqn:Eg; try discriminate.
-        inversion He; subst. split; auto.
-        destruct Hok as (_ & _ & HG). destruct (HG x v Eg) as (v' & Ha & Hv).
-        exists W, v'. split; [apply wext_refl; auto|]. split; auto. split; auto. split; auto.
+        inversion He; subst.
+        destruct (Hgl x v Eg) as (v' & Ha & Hv).
+        exists W, v', (globals s). split; [apply wext_refl; auto|]. split; auto. split; auto. split; auto. split; [exact Hgl|].
         simpl generate in *. rewrite HWh. eapply leafH; eauto. eapply step_global_ref; eauto.
       + simpl in Hp.
         assert (Hgen : generate tl svs (lctxA cur) (Ref x (Local m))
                        = gen_non_global_ref svs (lctxA cur) x (Local m) false ++ (if boxedv x m then [ICdr] else [])).
-        { destruct cur as [[[[id0 ps0] ls0] cfv0]|]; [|discriminate Hp].
+        { destruct cur as [[[[[[id0 ps0] r0] lr0] ls0] cfv0]|]; [|discriminate Hp].
           simpl. unfold gen_non_global_ref. simpl. rewrite (Hag m). unfold boxedv.
           destruct (memn x (SV m)); rewrite <- ?app_assoc; reflexivity. }
         set (cf := gen_non_global_ref svs (lctxA cur) x (Local m) false) in *.
@@ -1345,40 +1595,38 @@ Section Full.
         assert (Hcfl : length cf = 1) by (apply gen_fetchA_length; auto).
         destruct Hat as [Hcode Hip].
         assert (Hat1 : at_code s pre cf ((if boxedv x m then [ICdr] else []) ++ post)) by (split; auto; rewrite Hcode; norm_code).
-        destruct (fetch_varA cur env _ W s svs s [] [] x m pre _ Hok Hp eq_refl eq_refl eq_refl
+        destruct (fetch_varA cur env W s svs s [] [] x m pre _ Hok Hp eq_refl eq_refl eq_refl
                     (eq_trans (eq_sym HWh) (eq_sym (app_nil_r _))) Hat1) as (vb & l & Hl & Hvr & Hstep1).
         rewrite eval_Ref_local, Hl in He.
         destruct Hvr as (m' & Hm' & Hcase). simpl in Hm'. inversion Hm'; subst m'. simpl fst in Hcase.
         destruct Hcase as [(Hbx & bx & -> & Hwb) | (Hbx & Hwb & w & Hcw & Hvw)]; rewrite Hbx in *.
         * (* boxed: the content of the box *)
           destruct (HIb l bx Hwb) as (nm & vc & wc0 & Hhb & Hcl & Hvc).
-          rewrite HWc in Hcl. rewrite Hcl in He. inversion He; subst. split; auto.
+          rewrite HWc in Hcl. rewrite Hcl in He. inversion He; subst.
           set (s1 := upd s (VPair bx :: stk s) (S (ip s)) (heap s)) in *.
           assert (Hat2 : at_code s1 (pre ++ cf) [ICdr] post).
           { split; simpl; [|solve_len]. rewrite Hcode. norm_code. }
           assert (Hhb1 : nth_error (heap s1) bx = Some (HPair nm vc)) by (simpl; rewrite <- HWh; exact Hhb).
           pose proof (step_cdr s1 _ _ bx (stk s) nm vc Hat2 eq_refl Hhb1) as Hstep2.
-          exists W, vc. split; [apply wext_refl; auto|]. split; auto. split; auto. split; auto.
+          exists W, vc, (globals s). split; [apply wext_refl; auto|]. split; auto. split; auto. split; auto. split; [exact Hgl|].
           left. eapply reaches_trans; [apply reaches_step; exact Hstep1|]. apply reaches_step.
           etransitivity; [exact Hstep2|]. unfold fallH, upd; simpl. rewrite HWh. f_equal. f_equal. solve_len.
-        * rewrite HWc in Hcw. rewrite Hcw in He. inversion He; subst. split; auto.
-          exists W, vb. split; [apply wext_refl; auto|]. split; auto. split; auto. split; auto.
+        * rewrite HWc in Hcw. rewrite Hcw in He. inversion He; subst.
+          exists W, vb, (globals s). split; [apply wext_refl; auto|]. split; auto. split; auto. split; auto. split; [exact Hgl|].
           left. apply reaches_step. etransitivity; [exact Hstep1|].
           unfold fallH, upd; simpl. rewrite HWh, app_nil_r. f_equal. f_equal. lia.
     - (* SetV *)
-      destruct o as [|m]; [discriminate Hp|].
       rewrite generate_SetVA in * by auto.
-      set (cc := set_coreA svs cur x m e1) in *.
+      set (cc := set_coreA svs cur x o e1) in *.
       destruct Hat as [Hcode Hip].
       assert (Hat1 : at_code s pre cc ([IPush LVoid] ++ post)) by (split; auto; rewrite Hcode; norm_code).
-      destruct (core_stepA f IH cur x m e1 env st v st' Hp He svs s pre _ W Hag Hat1 HWh HWc HI Hok)
-        as (-> & Hsg & W1 & HE1 & HWc1 & HI1 & Hreach).
-      split; auto.
-      set (s1 := upd s (stk s) (length pre + length cc) (wh W1)) in *.
+      destruct (core_stepA f IH cur x o e1 env st v st' Hp He svs s pre _ W Hag Hat1 HWh HWc HI Hok Hgl)
+        as (-> & W1 & g1 & HE1 & HWc1 & HI1 & Hg1 & Hreach).
+      set (s1 := updg s (stk s) (length pre + length cc) (wh W1) g1) in *.
       assert (Hat2 : at_code s1 (pre ++ cc) [IPush LVoid] post).
       { split; simpl; [|rewrite app_length; reflexivity]. rewrite Hcode. norm_code. }
       pose proof (step_push s1 _ _ _ Hat2) as Hstep.
-      exists W1, (VLit LVoid). split; auto. split; auto. split; auto. split; [constructor|].
+      exists W1, (VLit LVoid), g1. split; auto. split; auto. split; auto. split; [constructor|]. split; [exact Hg1|].
       left. eapply reaches_trans; [exact Hreach|]. apply reaches_step. etransitivity; [exact Hstep|].
       unfold fallH, upd; simpl. f_equal. f_equal. solve_len.
     - (* Cnd *)
@@ -1392,9 +1640,9 @@ Section Full.
       destruct Hat as [Hcode Hip].
       assert (Hat1 : at_code s pre ct (([IJumpUnless (S (length cp))] ++ cp ++ [IJump (length cf)] ++ cf) ++ post)).
       { split; auto; rewrite Hcode; norm_code. }
-      destruct (IH t cur env st vt st1 Hpt Et false svs s pre _ W Hag Hat1 HWh HWc HI Hok)
-        as (Hsg1 & W1 & v1 & HE1 & HWc1 & HI1 & Hv1 & Hout1).
-      apply outcomeH_false in Hout1. fold ct in Hout1. set (s1 := fallH s v1 pre ct (wh W1)) in *.
+      destruct (IH t cur env st vt st1 Hpt Et false svs s pre _ W Hag Hat1 HWh HWc HI Hok Hgl)
+        as (W1 & v1 & g1 & HE1 & HWc1 & HI1 & Hv1 & Hg1 & Hout1).
+      apply outcomeH_false in Hout1. fold ct in Hout1. set (s1 := fallH s v1 pre ct (wh W1) g1) in *.
       assert (Hat2 : at_code s1 (pre ++ ct) [IJumpUnless (S (length cp))] (cp ++ [IJump (length cf)] ++ cf ++ post)).
       { split; simpl; [|rewrite app_length; reflexivity]. rewrite Hcode. norm_code. }
       destruct (sval_false_decW _ _ _ Hv1) as [[-> ->] | [Hw Hv]].
@@ -1402,13 +1650,13 @@ Section Full.
         set (s2 := upd s1 (stk s) (S (ip s1) + S (length cp)) (heap s1)) in *.
         assert (Hat3 : at_code s2 (pre ++ ct ++ [IJumpUnless (S (length cp))] ++ cp ++ [IJump (length cf)]) cf post).
         { split; simpl; [|solve_len]. rewrite Hcode. norm_code. }
-        assert (Hok2 : env_okA cur env (sglobals st1) W1 s2).
-        { rewrite Hsg1. eapply (env_okA_mono cur env _ W W1 s s2 []); eauto. }
-        destruct (IH e2 cur env st1 v st' Hpf He tl svs s2 _ post W1 Hag Hat3 eq_refl HWc1 HI1 Hok2) as (Hsg2 & Hres).
-        split; [congruence|]. fold cf in Hres.
+        assert (Hok2 : env_okA cur env W1 s2).
+        { eapply (env_okA_mono cur env W W1 s s2 []); eauto. }
+        pose proof (IH e2 cur env st1 v st' Hpf He tl svs s2 _ post W1 Hag Hat3 eq_refl HWc1 HI1 Hok2 Hg1) as Hres.
+        fold cf in Hres.
         eapply (resA_cont tl s s2 pre _ _ cf W W1); eauto.
         * eapply reaches_trans; [exact Hout1|]. apply reaches_step. exact Hstep.
-        * intros v0 h0. rewrite (fallH_eq s s2 v0 pre _ (ct ++ IJumpUnless (S (length cp)) :: cp ++ IJump (length cf) :: cf) cf h0); auto;
+        * intros v0 h0 g0. rewrite (fallH_eq s s2 v0 pre _ (ct ++ IJumpUnless (S (length cp)) :: cp ++ IJump (length cf) :: cf) cf h0 g0); auto;
             [apply reaches_refl | solve_len].
       + assert (Hep : eval f p env st1 = SVal v st').
         { destruct vt as [[z|[|]| | | | |o|nd] | |]; try exact He; congruence. }
@@ -1416,14 +1664,14 @@ Section Full.
         set (s2 := upd s1 (stk s) (S (ip s1)) (heap s1)) in *.
         assert (Hat3 : at_code s2 (pre ++ ct ++ [IJumpUnless (S (length cp))]) cp ([IJump (length cf)] ++ cf ++ post)).
         { split; simpl; [|solve_len]. rewrite Hcode. norm_code. }
-        assert (Hok2 : env_okA cur env (sglobals st1) W1 s2).
-        { rewrite Hsg1. eapply (env_okA_mono cur env _ W W1 s s2 []); eauto. }
-        destruct (IH p cur env st1 v st' Hpp Hep tl svs s2 _ _ W1 Hag Hat3 eq_refl HWc1 HI1 Hok2) as (Hsg2 & Hres).
-        split; [congruence|]. fold cp in Hres.
+        assert (Hok2 : env_okA cur env W1 s2).
+        { eapply (env_okA_mono cur env W W1 s s2 []); eauto. }
+        pose proof (IH p cur env st1 v st' Hpp Hep tl svs s2 _ _ W1 Hag Hat3 eq_refl HWc1 HI1 Hok2 Hg1) as Hres.
+        fold cp in Hres.
         eapply (resA_cont tl s s2 pre _ _ cp W W1); eauto.
         * eapply reaches_trans; [exact Hout1|]. apply reaches_step. exact Hstep.
-        * intros v0 h0.
-          set (s3 := fallH s2 v0 (pre ++ ct ++ [IJumpUnless (S (length cp))]) cp h0).
+        * intros v0 h0 g0.
+          set (s3 := fallH s2 v0 (pre ++ ct ++ [IJumpUnless (S (length cp))]) cp h0 g0).
           assert (Hat4 : at_code s3 (pre ++ ct ++ [IJumpUnless (S (length cp))] ++ cp) [IJump (length cf)] (cf ++ post)).
           { split; simpl; [|solve_len]. rewrite Hcode. norm_code. }
           apply reaches_step. rewrite (step_jump s3 _ _ _ Hat4).
@@ -1433,11 +1681,11 @@ Section Full.
       simpl in Hp. destruct es as [|a r0]; try discriminate Hp.
       eapply (simA_seq f IHle cur (a :: r0)); eauto. congruence.
     - (* Lam *)
-      simpl in Hp. destruct r; try discriminate Hp.
+      rewrite fragA_Lam in Hp.
       apply andb_true_iff in Hp. destruct Hp as [Hp Hfb]. apply andb_true_iff in Hp. destruct Hp as [Hp Hfvok].
       apply andb_true_iff in Hp. destruct Hp as [Hp Hsvin]. apply andb_true_iff in Hp. destruct Hp as [Hp Hndsv].
       apply andb_true_iff in Hp. destruct Hp as [Hnd Hsveq]. apply names_eqb_eq in Hsveq. subst sv.
-      rewrite eval_Lam in He. inversion He; subst. split; auto.
+      rewrite eval_Lam in He. inversion He; subst.
       rewrite generate_Lam_A in *. cbv zeta in *.
       set (svs' := fun m => if Nat.eqb m id then SV id else svs m) in *.
       assert (Hag' : agrees svs').
@@ -1446,14 +1694,15 @@ Section Full.
       { intros p Hin. unfold fv_okA in Hfvok. rewrite forallb_forall in Hfvok. specialize (Hfvok p Hin).
         destruct (snd p) as [|m]; [discriminate|]. apply andb_true_iff in Hfvok. destruct Hfvok as [Hne _].
         exists m. split; auto. apply negb_true_iff in Hne. apply Nat.eqb_neq in Hne. exact Hne. }
-      set (body := entryA svs' id ps ls fv b) in *.
+      set (body := entryA svs' id ps r ls fv b) in *. set (fl := lam_flags id r b) in *.
       destruct fv as [|p0 fvt].
-      + exists W, (VProc 0 (length ps) body (VLit LVoid)). split; [apply wext_refl; auto|]. split; auto. split; auto. split.
-        * eapply (VW_clo W id ps ls b env [] svs' (VLit LVoid) []); eauto; try (simpl; auto); try constructor.
+      + exists W, (VProc fl (length ps) body (VLit LVoid)), (globals s). split; [apply wext_refl; auto|]. split; auto. split; auto.
+        split; [|split; [exact Hgl|]].
+        * eapply (VW_clo W id ps r ls b env [] svs' (VLit LVoid) []); eauto; try (simpl; auto); try constructor.
         * rewrite HWh. eapply leafH; eauto. eapply step_push_proc; eauto.
       + set (fv := p0 :: fvt) in *. set (n := length fv) in *.
         set (cfill := closure_fill svs (lctxA cur) 0 fv) in *.
-        set (imk := IMakeProc 0 (length ps) body) in *.
+        set (imk := IMakeProc fl (length ps) body) in *.
         set (a := length (wh W)).
         destruct Hat as [Hcode Hip].
         assert (Hat1 : at_code s pre [IPush LVoid] (([IPush (LInt (Z.of_nat n)); IMakeVector] ++ cfill ++ [imk]) ++ post)).
@@ -1472,7 +1721,7 @@ Section Full.
         { split; simpl; [|solve_len]. rewrite Hcode. norm_code. }
         assert (Hstk3 : stk s3 = VVec a :: stk s) by (simpl; unfold a; rewrite HWh; reflexivity).
         assert (Hheap3 : heap s3 = wh W ++ [HVec (repeat (VLit LVoid) n)]) by (simpl; rewrite HWh; reflexivity).
-        destruct (fill_loopA cur env _ W s svs id Hok fv 0 (repeat (VLit LVoid) n) s3 _ _ a Hfvok Hat4
+        destruct (fill_loopA cur env W s svs id Hok fv 0 (repeat (VLit LVoid) n) s3 _ _ a Hfvok Hat4
                     eq_refl eq_refl Hstk3 eq_refl Hheap3 ltac:(rewrite repeat_length; reflexivity)) as (vals & Hreach & Hvals).
         fold cfill in Hreach. simpl firstn in Hreach. simpl app in Hreach.
         set (s4 := upd s3 (stk s3) (length (pre ++ [IPush LVoid; IPush (LInt (Z.of_nat n)); IMakeVector]) + length cfill)
@@ -1482,8 +1731,9 @@ Section Full.
         pose proof (step_make_proc s4 _ _ _ _ _ (VVec a) (stk s) Hat5 Hstk3) as Hstep5.
         set (W1 := walloc W (HVec vals)).
         assert (HE1 : wext W W1) by (apply walloc_ext; auto).
-        exists W1, (VProc 0 (length ps) body (VVec a)). split; auto. split; auto. split; [apply walloc_INV; auto|]. split.
-        * eapply (VW_clo W1 id ps ls b env fv svs' (VVec a) vals); eauto.
+        exists W1, (VProc fl (length ps) body (VVec a)), (globals s). split; auto. split; auto. split; [apply walloc_INV; auto|].
+        split; [|split; [exact (globrel_mono W W1 _ _ HB HE1 Hgl)|]].
+        * eapply (VW_clo W1 id ps r ls b env fv svs' (VVec a) vals); eauto.
           -- simpl. exists a. split; auto. split; [unfold a; rewrite nth_error_app2 by lia; rewrite Nat.sub_diag; reflexivity|].
              apply walloc_not_box; auto.
           -- apply fvrelW_of_clo. eapply fvrelW_mono; eauto.
@@ -1505,36 +1755,33 @@ Section Full.
       set (icall := if tl then ITailCall (length args) else ICall (length args)) in *.
       destruct Hat as [Hcode Hip].
       assert (Hat1 : at_code s pre cargs ((cg ++ [icall]) ++ post)) by (split; auto; rewrite Hcode; norm_code).
-      destruct (simA_args f IH cur args env st rvs st1 Hpa Eargs svs s pre _ W Hag Hat1 HWh HWc HI Hok)
-        as (Hsg1 & W1 & vargs & HE1 & HWc1 & HI1 & Hvargs & Hr1).
-      fold cargs in Hr1. set (s1 := upd s (vargs ++ stk s) (length pre + length cargs) (wh W1)) in *.
+      destruct (simA_args f IH cur args env st rvs st1 Hpa Eargs svs s pre _ W Hag Hat1 HWh HWc HI Hok Hgl)
+        as (W1 & vargs & g1 & HE1 & HWc1 & HI1 & Hvargs & Hg1 & Hr1).
+      fold cargs in Hr1. set (s1 := updg s (vargs ++ stk s) (length pre + length cargs) (wh W1) g1) in *.
       assert (Hat2 : at_code s1 (pre ++ cargs) cg ([icall] ++ post)).
       { split; simpl; [|rewrite app_length; reflexivity]. rewrite Hcode. norm_code. }
-      assert (Hok1 : env_okA cur env (sglobals st1) W1 s1).
-      { rewrite Hsg1. eapply (env_okA_mono cur env _ W W1 s s1 vargs); eauto. }
-      destruct (IH g cur env st1 wf st2 Hpg Eg false svs s1 _ _ W1 Hag Hat2 eq_refl HWc1 HI1 Hok1)
-        as (Hsg2 & W2 & vg & HE2 & HWc2 & HI2 & Hvg & Hout2).
-      apply outcomeH_false in Hout2. fold cg in Hout2. set (s2 := fallH s1 vg (pre ++ cargs) cg (wh W2)) in *.
+      assert (Hok1 : env_okA cur env W1 s1).
+      { eapply (env_okA_mono cur env W W1 s s1 vargs); eauto. }
+      destruct (IH g cur env st1 wf st2 Hpg Eg false svs s1 _ _ W1 Hag Hat2 eq_refl HWc1 HI1 Hok1 Hg1)
+        as (W2 & vg & g2 & HE2 & HWc2 & HI2 & Hvg & Hg2 & Hout2).
+      apply outcomeH_false in Hout2. fold cg in Hout2. set (s2 := fallH s1 vg (pre ++ cargs) cg (wh W2) g2) in *.
       destruct wf as [lw | xw yw | cid cps cr cls cb cenv]; try discriminate He.
-      destruct (vrelW_clo_inv _ _ _ _ _ _ _ _ Hvg) as (-> & Hnd & Hndsv & Hsvin & cfv & svs' & cvars & cels & Hfb & Hag' & Hown & Hcvars & Hcfv & ->).
+      destruct (vrelW_clo_inv _ _ _ _ _ _ _ _ Hvg) as (Hnd & Hndsv & Hsvin & cfv & svs' & cvars & cels & Hfb & Hag' & Hown & Hcvars & Hcfv & ->).
       set (vs := rev rvs) in *.
       destruct (length vs <? length cps) eqn:E1; try discriminate He.
-      destruct (length cps <? length vs) eqn:E2; try discriminate He.
-      apply Nat.ltb_ge in E1. apply Nat.ltb_ge in E2.
-      assert (Hlvs : length vs = length cps) by lia.
-      rewrite (bind_all_app_eq cid cps cls vs cenv (cells st2) (fun e3 c3 => eval f cb e3 (mkstore c3 (sglobals st2))) Hlvs) in He.
+      destruct (match cr with None => length cps <? length vs | Some _ => false end) eqn:E2; try discriminate He.
+      apply Nat.ltb_ge in E1.
+      assert (Hfix : cr = None -> length vs = length cps).
+      { intro Hc. subst cr. apply Nat.ltb_ge in E2. lia. }
+      rewrite (spec_bind_eqA cid cps cr cls vs cenv (cells st2) (fun e3 c3 => eval f cb e3 (mkstore c3 (sglobals st2))) E1) in He.
       assert (Hlargs : length args = length vargs).
       { rewrite (Forall2_len _ _ _ Hvargs). unfold vs. rewrite rev_length. pose proof (evlist_length _ _ _ _ _ _ Eargs) as Hl.
         rewrite rev_length in Hl. symmetry; exact Hl. }
       pose proof HI1 as (HB1 & _). pose proof HI2 as (HB2 & _).
       assert (Hvargs2 : Forall2 (vrelW W2) vargs vs) by exact (Forall2_vrelW_mono W1 W2 vargs vs HB1 HE2 Hvargs).
       assert (HE02 : wext W W2) by (eapply wext_trans; eauto).
-      assert (Hgl2 : forall g0 w, glob_lookup g0 (sglobals st2) = Some w ->
-                      exists v0, assoc_nat g0 (globals s2) = Some v0 /\ vrelW W2 v0 w).
-      { intros g0 w Hg0. rewrite Hsg2, Hsg1 in Hg0.
-        destruct Hok as (_ & _ & HG). destruct (HG g0 w Hg0) as (v0 & Ha & Hv0). exists v0. split; [exact Ha|].
-        exact (vrelW_mono W W2 HB HE02 v0 w Hv0). }
-      set (proc := VProc 0 (length cps) (entryA svs' cid cps cls cfv cb) cvars) in *.
+      assert (Hgl2 : globrel W2 (sglobals st2) (globals s2)) by exact Hg2.
+      set (proc := VProc (lam_flags cid cr cb) (length cps) (entryA svs' cid cps cr cls cfv cb) cvars) in *.
       assert (Hat3 : at_code s2 (pre ++ cargs ++ cg) [icall] post).
       { split; simpl; [|solve_len]. rewrite Hcode. norm_code. }
       assert (Hstk2 : stk s2 = proc :: (vargs ++ stk s)) by reflexivity.
@@ -1543,10 +1790,10 @@ Section Full.
       + (* TAIL-CALL *)
         destruct (frame_info s) as [[[[j rip] rself] rfp]|] eqn:Hfi.
         * set (base := below (fp s - j) (stk s)).
-          destruct (call_closedA f IH s2 W2 cid cps cls cb cfv svs' cvars cels vargs vs base rfp rself rip cenv st2 v st'
-                      Hag' Hnd Hndsv Hsvin Hfb Hown Hcvars Hcfv eq_refl HWc2 HI2 Hlvs Hvargs2 Hgl2 He)
-            as (Hsg3 & sc & W' & v' & Hmc & HE' & HWc' & HI' & Hv' & Hreach).
-          split; [congruence|]. exists W', v'. split; [eapply wext_trans; eauto|]. split; auto. split; auto. split; auto.
+          destruct (call_closedA f IH s2 W2 cid cps cr cls cb cfv svs' cvars cels vargs vs base rfp rself rip cenv st2 v st'
+                      Hag' Hnd Hndsv Hsvin Hfb Hown Hcvars Hcfv eq_refl HWc2 HI2 E1 Hfix Hvargs2 Hgl2 He)
+            as (sc & W' & v' & g' & Hmc & HE' & HWc' & HI' & Hv' & Hg' & Hreach).
+          exists W', v', g'. split; [eapply wext_trans; eauto|]. split; auto. split; auto. split; auto. split; [exact Hg'|].
           right. split; auto. intros j' rip' rself' rfp' Hq Hj. rewrite Hfi in Hq. injection Hq as <- <- <- <-.
           eapply reaches_trans; [exact Hreach2|].
           assert (Hfi2 : frame_info s2 = Some (j, rip, rself, rfp)).
@@ -1560,24 +1807,24 @@ Section Full.
           rewrite below_app in Hstep by lia. fold base in Hstep.
           unfold proc in Hstep. rewrite Hmc in Hstep.
           eapply reaches_trans; [apply reaches_step; exact Hstep|]. exact Hreach.
-        * destruct (call_closedA f IH s2 W2 cid cps cls cb cfv svs' cvars cels vargs vs [] 0 (VLit LVoid) 0 cenv st2 v st'
-                      Hag' Hnd Hndsv Hsvin Hfb Hown Hcvars Hcfv eq_refl HWc2 HI2 Hlvs Hvargs2 Hgl2 He)
-            as (Hsg3 & sc & W' & v' & _ & HE' & HWc' & HI' & Hv' & _).
-          split; [congruence|]. exists W', v'. split; [eapply wext_trans; eauto|]. split; auto. split; auto. split; auto.
+        * destruct (call_closedA f IH s2 W2 cid cps cr cls cb cfv svs' cvars cels vargs vs [] 0 (VLit LVoid) 0 cenv st2 v st'
+                      Hag' Hnd Hndsv Hsvin Hfb Hown Hcvars Hcfv eq_refl HWc2 HI2 E1 Hfix Hvargs2 Hgl2 He)
+            as (sc & W' & v' & g' & _ & HE' & HWc' & HI' & Hv' & Hg' & _).
+          exists W', v', g'. split; [eapply wext_trans; eauto|]. split; auto. split; auto. split; auto. split; [exact Hg'|].
           right. split; auto. intros j' rip' rself' rfp' Hq. rewrite Hfi in Hq. discriminate Hq.
       + (* CALL *)
-        destruct (call_closedA f IH s2 W2 cid cps cls cb cfv svs' cvars cels vargs vs (stk s) (fp s) (self s) (S (ip s2)) cenv st2 v st'
-                    Hag' Hnd Hndsv Hsvin Hfb Hown Hcvars Hcfv eq_refl HWc2 HI2 Hlvs Hvargs2 Hgl2 He)
-          as (Hsg3 & sc & W' & v' & Hmc & HE' & HWc' & HI' & Hv' & Hreach).
-        split; [congruence|]. exists W', v'. split; [eapply wext_trans; eauto|]. split; auto. split; auto. split; auto.
+        destruct (call_closedA f IH s2 W2 cid cps cr cls cb cfv svs' cvars cels vargs vs (stk s) (fp s) (self s) (S (ip s2)) cenv st2 v st'
+                    Hag' Hnd Hndsv Hsvin Hfb Hown Hcvars Hcfv eq_refl HWc2 HI2 E1 Hfix Hvargs2 Hgl2 He)
+          as (sc & W' & v' & g' & Hmc & HE' & HWc' & HI' & Hv' & Hg' & Hreach).
+        exists W', v', g'. split; [eapply wext_trans; eauto|]. split; auto. split; auto. split; auto. split; [exact Hg'|].
         left. eapply reaches_trans; [exact Hreach2|].
         pose proof (step_call s2 _ _ _ proc (vargs ++ stk s) Hat3 Hstk2) as Hstep.
         rewrite Hlargs in Hstep. unfold proc in Hstep.
         change (fp s2) with (fp s) in Hstep. change (self s2) with (self s) in Hstep.
         rewrite Hmc in Hstep.
         eapply reaches_trans; [apply reaches_step; exact Hstep|].
-        replace (fallH s v' pre (cargs ++ cg ++ [icall]) (wh W'))
-          with (mkst (v' :: stk s) (fp s) (self s) (S (ip s2)) (wh W') (globals s2)); [exact Hreach|].
+        replace (fallH s v' pre (cargs ++ cg ++ [icall]) (wh W') g')
+          with (mkst (v' :: stk s) (fp s) (self s) (S (ip s2)) (wh W') g'); [exact Hreach|].
         unfold fallH, upd. f_equal. unfold s2; simpl. solve_len.
     - (* OpApp *)
       simpl in Hp. apply andb_true_iff in Hp. destruct Hp as [Hp Hall]. apply andb_true_iff in Hp. destruct Hp as [Hpp Hlen].
@@ -1595,14 +1842,14 @@ Section Full.
         set (ca := generate false svs (lctxA cur) a) in *.
         destruct Hat as [Hcode Hip].
         assert (Hat1 : at_code s pre ca ([IPrim p] ++ post)) by (split; auto; rewrite Hcode; norm_code).
-        destruct (IH a cur env st va st1 Hpa Ea false svs s pre _ W Hag Hat1 HWh HWc HI Hok)
-          as (Hsg1 & W1 & v1 & HE1 & HWc1 & HI1 & Hv1 & Hout1).
-        apply outcomeH_false in Hout1. fold ca in Hout1. set (s1 := fallH s v1 pre ca (wh W1)) in *.
+        destruct (IH a cur env st va st1 Hpa Ea false svs s pre _ W Hag Hat1 HWh HWc HI Hok Hgl)
+          as (W1 & v1 & g1 & HE1 & HWc1 & HI1 & Hv1 & Hg1 & Hout1).
+        apply outcomeH_false in Hout1. fold ca in Hout1. set (s1 := fallH s v1 pre ca (wh W1) g1) in *.
         destruct (prim1_okW p _ _ _ _ (stk s) Ha1 Hv1 Eprim) as (r' & Hps & Hr).
         assert (Hat2 : at_code s1 (pre ++ ca) [IPrim p] post).
         { split; simpl; [|rewrite app_length; reflexivity]. rewrite Hcode. norm_code. }
         pose proof (step_prim s1 _ _ _ _ _ Hat2 Hps) as Hstep.
-        split; auto. exists W1, r'. split; auto. split; auto. split; auto. split; auto.
+        exists W1, r', g1. split; auto. split; auto. split; auto. split; auto. split; [exact Hg1|].
         left. eapply reaches_trans; [exact Hout1|]. apply reaches_step. etransitivity; [exact Hstep|].
         unfold fallH, upd; simpl. f_equal. f_equal. solve_len.
       + assert (Ha2 : prim_arity p = 2) by auto.
@@ -1617,16 +1864,16 @@ Section Full.
           destruct (prim_sem p [va; vb]) as [[rv|]|] eqn:Eprim; try discriminate. inversion He; subst rv st'. clear He.
           set (ca := generate false svs (lctxA cur) a) in *. set (cb := generate false svs (lctxA cur) b) in *.
           assert (Hat1 : at_code s pre ca ((cb ++ [IPrim (prim_opcode p)]) ++ post)) by (split; auto; rewrite Hcode; norm_code).
-          destruct (IH a cur env st va st1 Hpa Ea false svs s pre _ W Hag Hat1 HWh HWc HI Hok)
-            as (Hsg1 & W1 & v1 & HE1 & HWc1 & HI1 & Hv1 & Hout1).
-          apply outcomeH_false in Hout1. fold ca in Hout1. set (s1 := fallH s v1 pre ca (wh W1)) in *.
+          destruct (IH a cur env st va st1 Hpa Ea false svs s pre _ W Hag Hat1 HWh HWc HI Hok Hgl)
+            as (W1 & v1 & g1 & HE1 & HWc1 & HI1 & Hv1 & Hg1 & Hout1).
+          apply outcomeH_false in Hout1. fold ca in Hout1. set (s1 := fallH s v1 pre ca (wh W1) g1) in *.
           assert (Hat2 : at_code s1 (pre ++ ca) cb ([IPrim (prim_opcode p)] ++ post)).
           { split; simpl; [|rewrite app_length; reflexivity]. rewrite Hcode. norm_code. }
-          assert (Hok1 : env_okA cur env (sglobals st1) W1 s1).
-          { rewrite Hsg1. eapply (env_okA_mono cur env _ W W1 s s1 [v1]); eauto. }
-          destruct (IH b cur env st1 vb st2 Hpb Eb false svs s1 _ _ W1 Hag Hat2 eq_refl HWc1 HI1 Hok1)
-            as (Hsg2 & W2 & v2 & HE2 & HWc2 & HI2 & Hv2 & Hout2).
-          apply outcomeH_false in Hout2. fold cb in Hout2. set (s2 := fallH s1 v2 (pre ++ ca) cb (wh W2)) in *.
+          assert (Hok1 : env_okA cur env W1 s1).
+          { eapply (env_okA_mono cur env W W1 s s1 [v1]); eauto. }
+          destruct (IH b cur env st1 vb st2 Hpb Eb false svs s1 _ _ W1 Hag Hat2 eq_refl HWc1 HI1 Hok1 Hg1)
+            as (W2 & v2 & g2 & HE2 & HWc2 & HI2 & Hv2 & Hg2 & Hout2).
+          apply outcomeH_false in Hout2. fold cb in Hout2. set (s2 := fallH s1 v2 (pre ++ ca) cb (wh W2) g2) in *.
           pose proof HI1 as (HB1 & _).
           assert (Hv1' : vrelW W2 v1 va) by (eapply vrelW_mono; eauto).
           destruct (prim2_okW p W2 v1 v2 va vb _ (stk s) HI2 Ha2 Hpp Hv1' Hv2 Eprim) as (r' & W3 & HE3 & HI3 & HWc3 & Hps & Hr).
@@ -1634,8 +1881,8 @@ Section Full.
           assert (Hat3 : at_code s2 (pre ++ ca ++ cb) [IPrim (prim_opcode p)] post).
           { split; simpl; [|solve_len]. rewrite Hcode. norm_code. }
           pose proof (step_prim s2 _ _ _ _ _ Hat3 Hps) as Hstep.
-          split; [congruence|]. exists W3, r'. split; [eapply wext_trans; [exact HE1|eapply wext_trans; eauto]|].
-          split; [congruence|]. split; auto. split; auto.
+          exists W3, r', g2. split; [eapply wext_trans; [exact HE1|eapply wext_trans; eauto]|].
+          split; [congruence|]. split; auto. split; auto. split; [exact (globrel_mono W2 W3 _ _ (proj1 HI2) HE3 Hg2)|].
           left. eapply reaches_trans; [exact Hout1|]. eapply reaches_trans; [exact Hout2|].
           apply reaches_step. etransitivity; [exact Hstep|]. unfold fallH, upd; simpl. f_equal. f_equal. solve_len.
         * simpl evlist in He.
@@ -1645,16 +1892,16 @@ Section Full.
           destruct (prim_sem p [va; vb]) as [[rv|]|] eqn:Eprim; try discriminate. inversion He; subst rv st'. clear He.
           set (ca := generate false svs (lctxA cur) a) in *. set (cb := generate false svs (lctxA cur) b) in *.
           assert (Hat1 : at_code s pre cb ((ca ++ [IPrim p]) ++ post)) by (split; auto; rewrite Hcode; norm_code).
-          destruct (IH b cur env st vb st1 Hpb Eb false svs s pre _ W Hag Hat1 HWh HWc HI Hok)
-            as (Hsg1 & W1 & v1 & HE1 & HWc1 & HI1 & Hv1 & Hout1).
-          apply outcomeH_false in Hout1. fold cb in Hout1. set (s1 := fallH s v1 pre cb (wh W1)) in *.
+          destruct (IH b cur env st vb st1 Hpb Eb false svs s pre _ W Hag Hat1 HWh HWc HI Hok Hgl)
+            as (W1 & v1 & g1 & HE1 & HWc1 & HI1 & Hv1 & Hg1 & Hout1).
+          apply outcomeH_false in Hout1. fold cb in Hout1. set (s1 := fallH s v1 pre cb (wh W1) g1) in *.
           assert (Hat2 : at_code s1 (pre ++ cb) ca ([IPrim p] ++ post)).
           { split; simpl; [|rewrite app_length; reflexivity]. rewrite Hcode. norm_code. }
-          assert (Hok1 : env_okA cur env (sglobals st1) W1 s1).
-          { rewrite Hsg1. eapply (env_okA_mono cur env _ W W1 s s1 [v1]); eauto. }
-          destruct (IH a cur env st1 va st2 Hpa Ea false svs s1 _ _ W1 Hag Hat2 eq_refl HWc1 HI1 Hok1)
-            as (Hsg2 & W2 & v2 & HE2 & HWc2 & HI2 & Hv2 & Hout2).
-          apply outcomeH_false in Hout2. fold ca in Hout2. set (s2 := fallH s1 v2 (pre ++ cb) ca (wh W2)) in *.
+          assert (Hok1 : env_okA cur env W1 s1).
+          { eapply (env_okA_mono cur env W W1 s s1 [v1]); eauto. }
+          destruct (IH a cur env st1 va st2 Hpa Ea false svs s1 _ _ W1 Hag Hat2 eq_refl HWc1 HI1 Hok1 Hg1)
+            as (W2 & v2 & g2 & HE2 & HWc2 & HI2 & Hv2 & Hg2 & Hout2).
+          apply outcomeH_false in Hout2. fold ca in Hout2. set (s2 := fallH s1 v2 (pre ++ cb) ca (wh W2) g2) in *.
           pose proof HI1 as (HB1 & _).
           assert (Hv1' : vrelW W2 v1 vb) by (eapply vrelW_mono; eauto).
           destruct (prim2_okW p W2 v2 v1 va vb _ (stk s) HI2 Ha2 Hpp Hv2 Hv1' Eprim) as (r' & W3 & HE3 & HI3 & HWc3 & Hps & Hr).
@@ -1662,8 +1909,8 @@ Section Full.
           assert (Hat3 : at_code s2 (pre ++ cb ++ ca) [IPrim p] post).
           { split; simpl; [|solve_len]. rewrite Hcode. norm_code. }
           pose proof (step_prim s2 _ _ _ _ _ Hat3 Hps) as Hstep.
-          split; [congruence|]. exists W3, r'. split; [eapply wext_trans; [exact HE1|eapply wext_trans; eauto]|].
-          split; [congruence|]. split; auto. split; auto.
+          exists W3, r', g2. split; [eapply wext_trans; [exact HE1|eapply wext_trans; eauto]|].
+          split; [congruence|]. split; auto. split; auto. split; [exact (globrel_mono W2 W3 _ _ (proj1 HI2) HE3 Hg2)|].
           left. eapply reaches_trans; [exact Hout1|]. eapply reaches_trans; [exact Hout2|].
           apply reaches_step. etransitivity; [exact Hstep|]. unfold fallH, upd; simpl. f_equal. f_equal. solve_len.
       + destruct p; discriminate Hlen.
@@ -1691,27 +1938,27 @@ Theorem compile_correct_imperative_fragment : forall SV fuel e cur env st v st' 
   agrees SV svs ->
   code_of (self s) = pre ++ generate tl svs (lctxA cur) e ++ post -> ip s = length pre ->
   wh W = heap s -> wc W = cells st -> WINV SV W ->
-  env_okA SV cur env (sglobals st) W s ->
-  sglobals st' = sglobals st /\
-  exists W' v', wext W W' /\ wc W' = cells st' /\ WINV SV W' /\ vrelW SV W' v' v /\
+  env_okA SV cur env W s -> globrel SV W (sglobals st) (globals s) ->
+  exists W' v' gl', wext W W' /\ wc W' = cells st' /\ WINV SV W' /\ vrelW SV W' v' v /\
+    globrel SV W' (sglobals st') gl' /\
     ((exists n, nsteps n s = Some (mkst (v' :: stk s) (fp s) (self s)
-                                        (length pre + length (generate tl svs (lctxA cur) e)) (wh W') (globals s)))
+                                        (length pre + length (generate tl svs (lctxA cur) e)) (wh W') gl'))
      \/ (tl = true /\ forall j rip rself rfp, frame_info s = Some (j, rip, rself, rfp) -> j <= fp s ->
-           exists n, nsteps n s = Some (mkst (v' :: below (fp s - j) (stk s)) rfp rself rip (wh W') (globals s)))).
+           exists n, nsteps n s = Some (mkst (v' :: below (fp s - j) (stk s)) rfp rself rip (wh W') gl'))).
 Proof.
-  intros SV fuel e cur env st v st' tl svs s pre post W Hp He Hag Hc Hi HWh HWc HI Hok.
-  exact (simA_all SV fuel e cur env st v st' Hp He tl svs s pre post W Hag (conj Hc Hi) HWh HWc HI Hok).
+  intros SV fuel e cur env st v st' tl svs s pre post W Hp He Hag Hc Hi HWh HWc HI Hok Hgl.
+  exact (simA_all SV fuel e cur env st v st' Hp He tl svs s pre post W Hag (conj Hc Hi) HWh HWc HI Hok Hgl).
 Qed.
 
-Lemma finish_returnH : forall s code v' h' j rip rself rfp,
+Lemma finish_returnH : forall s code v' h' g' j rip rself rfp,
   code_of (self s) = code ++ [IRet] -> ip s = 0 ->
   frame_info s = Some (j, rip, rself, rfp) -> j <= fp s ->
-  outcomeH true s [] code v' h' ->
-  reaches s (mkst (v' :: below (fp s - j) (stk s)) rfp rself rip h' (globals s)).
+  outcomeH true s [] code v' h' g' ->
+  reaches s (mkst (v' :: below (fp s - j) (stk s)) rfp rself rip h' g').
 Proof.
-  intros s code v' h' j rip rself rfp Hc Hi Hfi Hj [Hfall | [_ Hret]].
+  intros s code v' h' g' j rip rself rfp Hc Hi Hfi Hj [Hfall | [_ Hret]].
   - eapply reaches_trans; [exact Hfall|].
-    set (se := fallH s v' [] code h') in *.
+    set (se := fallH s v' [] code h' g') in *.
     assert (Hate : at_code se code [IRet] []).
     { split; [|reflexivity]. simpl. rewrite Hc. reflexivity. }
     assert (Hfie : frame_info se = Some (j, rip, rself, rfp)).
@@ -1723,16 +1970,17 @@ Proof.
   - exact (Hret j rip rself rfp Hfi Hj).
 Qed.
 
-(** end to end for one top-level expression, from any world whose invariant holds and that represents the globals *)
+(** end to end for one top-level expression, from any world whose invariant holds and that represents the globals; the
+    final globals of the VM represent the SPEC's final globals (they change when a procedure assigns a global) *)
 Theorem compile_correct_toplevel_expr_imperative : forall SV fuel e st v st' svs W gl,
   fragA SV None e = true ->
   eval fuel e [] st = SVal v st' ->
   agrees SV svs -> wc W = cells st -> WINV SV W ->
-  (forall g w, glob_lookup g (sglobals st) = Some w -> exists v0, assoc_nat g gl = Some v0 /\ vrelW SV W v0 w) ->
+  globrel SV W (sglobals st) gl ->
   exists s0 n v' s' W',
     init_state (generate true svs None e ++ [IRet]) (wh W) gl = Next s0 /\
     run n s0 = Done v' s' /\ wext W W' /\ heap s' = wh W' /\ wc W' = cells st' /\ WINV SV W' /\
-    vrelW SV W' v' v /\ globals s' = gl.
+    vrelW SV W' v' v /\ globrel SV W' (sglobals st') (globals s').
 Proof.
   intros SV fuel e st v st' svs W gl Hp He Hag HWc HI Hgl.
   set (code := generate true svs None e).
@@ -1741,17 +1989,184 @@ Proof.
   assert (Hinit : init_state (code ++ [IRet]) (wh W) gl = Next s0).
   { unfold init_state. rewrite make_call_fixed by (simpl; lia). reflexivity. }
   assert (Hat : at_code s0 [] (generate true svs (lctxA None) e) [IRet]) by (split; reflexivity).
-  assert (Hok : env_okA SV None [] (sglobals st) W s0).
-  { split; [|split]; try (intros id ps ls fv Hc; discriminate Hc). exact Hgl. }
-  destruct (simA_all SV fuel e None [] st v st' Hp He true svs s0 [] [IRet] W Hag Hat eq_refl HWc HI Hok)
-    as (_ & W' & v' & HE' & HWc' & HI' & Hv' & Hout).
+  assert (Hok : env_okA SV None [] W s0).
+  { split; intros id ps r lr ls fv Hc; discriminate Hc. }
+  destruct (simA_all SV fuel e None [] st v st' Hp He true svs s0 [] [IRet] W Hag Hat eq_refl HWc HI Hok Hgl)
+    as (W' & v' & g' & HE' & HWc' & HI' & Hv' & Hg' & Hout).
   assert (Hfi : frame_info s0 = Some (0, 0, final_resumer, 0)) by apply (frame_info_entry 0 final_resumer 0 0 base).
-  pose proof (finish_returnH s0 code v' (wh W') 0 0 final_resumer 0 eq_refl eq_refl Hfi (Nat.le_0_l _) Hout) as [n Hn].
-  set (t := mkst (v' :: below (fp s0 - 0) (stk s0)) 0 final_resumer 0 (wh W') (globals s0)) in *.
+  pose proof (finish_returnH s0 code v' (wh W') g' 0 0 final_resumer 0 eq_refl eq_refl Hfi (Nat.le_0_l _) Hout) as [n Hn].
+  set (t := mkst (v' :: below (fp s0 - 0) (stk s0)) 0 final_resumer 0 (wh W') g') in *.
   exists s0, (n + 1), v', t, W'. split; [exact Hinit|].
   split; [rewrite (run_nsteps n 1 s0 t Hn); reflexivity|].
-  split; [exact HE'|]. split; [reflexivity|]. split; [exact HWc'|]. split; [exact HI'|]. split; [exact Hv'|reflexivity].
+  split; [exact HE'|]. split; [reflexivity|]. split; [exact HWc'|]. split; [exact HI'|]. split; [exact Hv'|exact Hg'].
 Qed.
+
+(* ------------------------------------------------------------------ the live-rest bookkeeping excludes nothing *)
+
+Section PlainFragment.
+  Variable SV : nat -> list name.
+
+  (** [fragP]: the plain reading of the fragment -- every frame variable, the rest parameter included, is resolvable *)
+  Fixpoint fragP (cur : fctxA) (e : ast) {struct e} : bool :=
+    match e with
+    | Lit _ => true
+    | Ref x Global => true
+    | Ref x (Local m) => resolvableA cur x m
+    | SetV x (Local m) v => resolvableA cur x m && boxedv SV x m && fragP cur v
+    | SetV x Global v => fragP cur v
+    | Cnd t p f => fragP cur t && fragP cur p && fragP cur f
+    | Seq es => match es with [] => false | _ :: _ => forallb (fragP cur) es end
+    | OpApp p args => pure_prim p && Nat.eqb (length args) (prim_arity p) && forallb (fragP cur) args
+    | Lam id ps r ls sv fv b =>
+        nodupb (frame_vars ps r ls) && names_eqb sv (SV id) && nodupb sv
+        && forallb (fun x => memn x (ps ++ rest_list r ++ ls)) sv
+        && fv_okA cur id fv && fragP (Some (id, ps, r, rest_list r, ls, fv)) b
+    | App f args => fragP cur f && forallb (fragP cur) args
+    end.
+
+  (** the annotations only list variables that occur: an sv variable is mentioned in its lambda's body, an fv entry
+      is mentioned in the body of the lambda that captures it (what eval.c's analyser and free-variable pass produce) *)
+  Fixpoint annot_ok (e : ast) {struct e} : bool :=
+    match e with
+    | Lit _ | Ref _ _ => true
+    | SetV _ _ v => annot_ok v
+    | Cnd t p f => annot_ok t && annot_ok p && annot_ok f
+    | Seq es => forallb annot_ok es
+    | Lam id ps r ls sv fv b =>
+        forallb (fun x => mentions id x b) sv
+        && forallb (fun p => match snd p with Local m => mentions m (fst p) b | Global => true end) fv
+        && annot_ok b
+    | App f args => annot_ok f && forallb annot_ok args
+    | OpApp _ args => forallb annot_ok args
+    end.
+
+  Definition dead_ok (curP curA : fctxA) (e : ast) : Prop :=
+    match curP, curA with
+    | None, None => True
+    | Some (id, ps, r, lp, ls, fv), Some (id', ps', r', la, ls', fv') =>
+        id' = id /\ ps' = ps /\ r' = r /\ ls' = ls /\ fv' = fv /\
+        forall x, memn x lp = true -> memn x la = false -> mentions id x e = false
+    | _, _ => False
+    end.
+
+  Lemma dead_ok_sub : forall curP curA e e',
+    (forall id x, mentions id x e = false -> mentions id x e' = false) -> dead_ok curP curA e -> dead_ok curP curA e'.
+  Proof.
+    intros [[[[[[id ps] r] lp] ls] fv]|] [[[[[[id' ps'] r'] la] ls'] fv']|] e e' Hs H; simpl in *; auto.
+    destruct H as (-> & -> & -> & -> & -> & H). repeat split; auto.
+  Qed.
+
+  Lemma resolvable_sub : forall curP curA e x m, dead_ok curP curA e -> mentions m x e = true ->
+    resolvableA curP x m = true -> resolvableA curA x m = true.
+  Proof.
+    intros [[[[[[id ps] r] lp] ls] fv]|] [[[[[[id' ps'] r'] la] ls'] fv']|] e x m H Hm Hr; simpl in *;
+      try discriminate; try contradiction.
+    destruct H as (-> & -> & -> & -> & -> & H).
+    destruct (Nat.eqb m id) eqn:E; auto. apply Nat.eqb_eq in E. subst m.
+    rewrite !memn_app in Hr |- *. apply orb_true_iff in Hr. destruct Hr as [Hr|Hr]; [rewrite Hr; reflexivity|].
+    apply orb_true_iff in Hr. destruct Hr as [Hr|Hr]; [|rewrite Hr; rewrite !orb_true_r; reflexivity].
+    destruct (memn x la) eqn:Ela; [rewrite orb_true_r; reflexivity|].
+    rewrite (H x Hr Ela) in Hm. discriminate Hm.
+  Qed.
+
+  Lemma existsb_false_In : forall {A} (f : A -> bool) l a, existsb f l = false -> In a l -> f a = false.
+  Proof.
+    intros A f l a H Hin. destruct (f a) eqn:E; auto.
+    assert (existsb f l = true) by (apply existsb_exists; exists a; auto). congruence.
+  Qed.
+
+  Lemma forallb_sub : forall (P Q : ast -> bool) l,
+    Forall (fun e => P e = true -> Q e = true) l -> forallb P l = true -> forallb Q l = true.
+  Proof.
+    intros P Q l H. induction H as [|x r Hx Hr IH]; simpl; auto.
+    intro Hp. apply andb_true_iff in Hp. destruct Hp as [H1 H2]. rewrite (Hx H1), (IH H2). reflexivity.
+  Qed.
+
+  Lemma fragP_fragA_gen : forall e curP curA,
+    fragP curP e = true -> annot_ok e = true -> dead_ok curP curA e -> fragA SV curA e = true.
+  Proof.
+    induction e as [l | x o | x o v IHv | t p f IHt IHp IHf | es IHes | id ps r ls sv fv b IHb | g args IHg IHargs | p args IHargs]
+      using ast_ind'; intros curP curA H Ha Hd.
+    - reflexivity.
+    - (* Ref *)
+      destruct o as [|m]; [reflexivity|]. simpl in H |- *.
+      apply (resolvable_sub curP curA (Ref x (Local m)) x m Hd); auto.
+      simpl. rewrite !Nat.eqb_refl. reflexivity.
+    - (* SetV *)
+      destruct o as [|m].
+      { simpl in H, Ha |- *. apply (IHv curP curA H Ha). eapply dead_ok_sub; [|exact Hd].
+        intros id0 y Hm. simpl in Hm. apply orb_false_iff in Hm. tauto. }
+      simpl in H, Ha |- *.
+      apply andb_true_iff in H. destruct H as [H Hv]. apply andb_true_iff in H. destruct H as [Hr Hb].
+      rewrite Hb, andb_true_r. apply andb_true_iff. split.
+      + apply (resolvable_sub curP curA (SetV x (Local m) v) x m Hd); auto.
+        simpl. rewrite !Nat.eqb_refl. reflexivity.
+      + apply (IHv curP curA Hv Ha). eapply dead_ok_sub; [|exact Hd].
+        intros id0 y Hm. simpl in Hm. apply orb_false_iff in Hm. tauto.
+    - (* Cnd *)
+      simpl in H, Ha |- *.
+      apply andb_true_iff in H. destruct H as [H H3]. apply andb_true_iff in H. destruct H as [H1 H2].
+      apply andb_true_iff in Ha. destruct Ha as [Ha Ha3]. apply andb_true_iff in Ha. destruct Ha as [Ha1 Ha2].
+      rewrite (IHt curP curA H1 Ha1), (IHp curP curA H2 Ha2), (IHf curP curA H3 Ha3); auto;
+        (eapply dead_ok_sub; [|exact Hd]); intros id0 y Hm; simpl in Hm;
+        apply orb_false_iff in Hm; destruct Hm as [Hm Hm3]; apply orb_false_iff in Hm; tauto.
+    - (* Seq *)
+      simpl in H, Ha |- *. destruct es as [|a r0]; [discriminate H|].
+      refine (forallb_sub (fragP curP) (fragA SV curA) (a :: r0) _ H).
+      rewrite Forall_forall in IHes |- *. intros e0 Hin He0. apply (IHes e0 Hin curP curA He0).
+      + rewrite forallb_forall in Ha. apply Ha. exact Hin.
+      + eapply dead_ok_sub; [|exact Hd]. intros id0 y Hm. exact (existsb_false_In (mentions id0 y) _ e0 Hm Hin).
+    - (* Lam *)
+      rewrite fragA_Lam. simpl in H, Ha.
+      apply andb_true_iff in H. destruct H as [H Hfb]. apply andb_true_iff in H. destruct H as [H Hfvok].
+      apply andb_true_iff in H. destruct H as [H Hsvin]. rewrite H. simpl.
+      apply andb_true_iff in Ha. destruct Ha as [Ha Hab]. apply andb_true_iff in Ha. destruct Ha as [Hasv Hafv].
+      assert (Hdead : forall y, memn y (rest_list r) = true -> memn y (live_of id r b) = false -> mentions id y b = false).
+      { intros y Hy Hl. unfold live_of in Hl. destruct (rest_unused true id r b) eqn:Eu; [|congruence].
+        destruct r as [z|]; [|discriminate Hy]. simpl in Hy. rewrite orb_false_r in Hy. apply Nat.eqb_eq in Hy. subst y.
+        exact (Proofs.rest_unused_sound id z b Eu). }
+      apply andb_true_iff. split; [apply andb_true_iff; split|].
+      + (* sv only lists variables that have a slot *)
+        apply forallb_forall. intros y Hy. rewrite forallb_forall in Hsvin, Hasv.
+        specialize (Hsvin y Hy). specialize (Hasv y Hy).
+        rewrite !memn_app in Hsvin |- *. apply orb_true_iff in Hsvin. destruct Hsvin as [Hs|Hs]; [rewrite Hs; reflexivity|].
+        apply orb_true_iff in Hs. destruct Hs as [Hs|Hs]; [|rewrite Hs; rewrite !orb_true_r; reflexivity].
+        destruct (memn y (live_of id r b)) eqn:El; [rewrite orb_true_r; reflexivity|].
+        rewrite (Hdead y Hs El) in Hasv. discriminate Hasv.
+      + (* captured variables are fetchable *)
+        unfold fv_okA in *. apply forallb_forall. intros q Hq. rewrite forallb_forall in Hfvok, Hafv.
+        specialize (Hfvok q Hq). specialize (Hafv q Hq).
+        destruct (snd q) as [|m]; [discriminate Hfvok|].
+        apply andb_true_iff in Hfvok. destruct Hfvok as [Hne Hres]. rewrite Hne. simpl.
+        apply (resolvable_sub curP curA (Lam id ps r ls sv fv b) (fst q) m Hd); auto.
+      + apply (IHb (Some (id, ps, r, rest_list r, ls, fv)) (Some (id, ps, r, live_of id r b, ls, fv)) Hfb Hab).
+        simpl. repeat split; auto.
+    - (* App *)
+      simpl in H, Ha |- *. apply andb_true_iff in H. destruct H as [H1 H2]. apply andb_true_iff in Ha. destruct Ha as [Ha1 Ha2].
+      apply andb_true_iff. split.
+      + apply (IHg curP curA H1 Ha1). eapply dead_ok_sub; [|exact Hd].
+        intros id0 y Hm. change (mentions id0 y g || existsb (mentions id0 y) args = false) in Hm.
+        apply orb_false_iff in Hm. tauto.
+      + refine (forallb_sub (fragP curP) (fragA SV curA) args _ H2).
+        rewrite Forall_forall in IHargs |- *. intros e0 Hin He0. apply (IHargs e0 Hin curP curA He0).
+        * rewrite forallb_forall in Ha2. apply Ha2. exact Hin.
+        * eapply dead_ok_sub; [|exact Hd]. intros id0 y Hm.
+          change (mentions id0 y g || existsb (mentions id0 y) args = false) in Hm. apply orb_false_iff in Hm.
+          destruct Hm as [_ Hm]. exact (existsb_false_In (mentions id0 y) _ e0 Hm Hin).
+    - (* OpApp *)
+      simpl in H, Ha |- *. apply andb_true_iff in H. destruct H as [H1 H2]. rewrite H1. simpl.
+      refine (forallb_sub (fragP curP) (fragA SV curA) args _ H2).
+      rewrite Forall_forall in IHargs |- *. intros e0 Hin He0. apply (IHargs e0 Hin curP curA He0).
+      + rewrite forallb_forall in Ha. apply Ha. exact Hin.
+      + eapply dead_ok_sub; [|exact Hd]. intros id0 y Hm. exact (existsb_false_In (mentions id0 y) _ e0 Hm Hin).
+  Qed.
+
+  (** every top-level expression of the plain fragment whose annotations list only occurring variables is in [fragA]:
+      a rest parameter the compiler leaves without a slot (UNUSED_REST) is never mentioned, by [Proofs.rest_unused_sound] *)
+  Theorem fragP_fragA : forall e, fragP None e = true -> annot_ok e = true -> fragA SV None e = true.
+  Proof. intros e H Ha. exact (fragP_fragA_gen e None None H Ha I). Qed.
+
+End PlainFragment.
 
 (* ------------------------------------------------------------------ the hypotheses are satisfiable *)
 
@@ -1804,3 +2219,129 @@ Module ExampleFull.
                                     run 400 s0 = Done v' s'.
   Proof. eexists. eexists. eexists. split; vm_compute; reflexivity. Qed.
 End ExampleFull.
+
+(** ((lambda (f g) (cons (g 7 8 9) (cons (g 4) (cons (f 1) (f 1 2 3)))))
+       (lambda (a . r) (define (get) r) (set! r (cons a r)) (get))
+       (lambda (a . r) a))                                              =>  (7 4 (1) 1 2 3)
+    f: the rest parameter is assigned (boxed by the entry code), captured by the inner closure [get] (through its box)
+       and read back after the assignment; called with no surplus argument ('() is inserted) and with two (the list is
+       consed by make_call).  g: flagged UNUSED_REST, the surplus arguments stay on the stack and are popped by RET. *)
+Module ExampleRest.
+  Definition SV0 : nat -> list name := fun m => if Nat.eqb m 1 then [1; 2] else [].
+  Definition f_lam : ast :=
+    Lam 1 [0] (Some 1) [2] [1; 2] []
+        (Seq [SetV 2 (Local 1) (Lam 2 [] None [] [] [(1, Local 1)] (Ref 1 (Local 1)));
+              SetV 1 (Local 1) (OpApp PCons [Ref 0 (Local 1); Ref 1 (Local 1)]);
+              App (Ref 2 (Local 1)) []]).
+  Definition g_lam : ast := Lam 3 [6] (Some 7) [] [] [] (Ref 6 (Local 3)).
+  Definition ints (l : list Z) : list ast := map (fun z => Lit (LInt z)) l.
+  Definition e0 : ast :=
+    App (Lam 0 [4; 5] None [] [] []
+           (OpApp PCons [App (Ref 5 (Local 0)) (ints [7; 8; 9]%Z);
+              OpApp PCons [App (Ref 5 (Local 0)) (ints [4]%Z);
+                OpApp PCons [App (Ref 4 (Local 0)) (ints [1]%Z); App (Ref 4 (Local 0)) (ints [1; 2; 3]%Z)]]]))
+        [f_lam; g_lam].
+  Definition W0 : world := mkW [] [] (fun _ => None).
+  Definition st0 : sstore := mkstore [] [].
+  Definition ilist (l : list Z) : sval := slist (map (fun z => SLit (LInt z)) l).
+
+  (** the compiler flags g UNUSED_REST and f not *)
+  Example flags : lam_flags 3 (Some 7) (Ref 6 (Local 3)) = 3 /\
+                  match f_lam with Lam id _ r _ _ _ b => lam_flags id r b | _ => 0 end = 1.
+  Proof. split; reflexivity. Qed.
+
+  Example frag_e0 : fragA SV0 None e0 = true.
+  Proof. reflexivity. Qed.
+
+  (** the plain reading of the fragment and the annotation check hold too ([fragP_fragA] then gives [frag_e0]) *)
+  Example plain_e0 : fragP SV0 None e0 = true /\ annot_ok e0 = true.
+  Proof. split; reflexivity. Qed.
+
+  Definition expected : sval :=
+    SPair (SLit (LInt 7)) (SPair (SLit (LInt 4)) (SPair (ilist [1]%Z) (ilist [1; 2; 3]%Z))).
+
+  Example eval_e0 : exists st', eval 40 e0 [] st0 = SVal expected st'.
+  Proof. eexists. vm_compute. reflexivity. Qed.
+
+  Example winv0 : WINV SV0 W0.
+  Proof. split; [|split]; intros; simpl in *; discriminate. Qed.
+
+  (** the analyser's free-variable pass leaves the fv annotations of e0 unchanged: e0 is in the form [compile_toplevel] compiles *)
+  Example annotated : annotate e0 = e0.
+  Proof. reflexivity. Qed.
+
+  Lemma end_to_end_gen : forall e want, fragA SV0 None e = true -> (exists st', eval 40 e [] st0 = SVal want st') ->
+    exists s0 n v' s' W' st',
+      init_state (generate true SV0 None e ++ [IRet]) [] [] = Next s0 /\
+      run n s0 = Done v' s' /\ heap s' = wh W' /\ vrelW SV0 W' v' want /\ wc W' = cells st'.
+  Proof.
+    intros e want Hf [st' He].
+    destruct (compile_correct_toplevel_expr_imperative SV0 40 e st0 _ st' SV0 W0 [] Hf He (fun m => eq_refl) eq_refl winv0)
+      as (s0 & n & v' & s' & W' & Hi & Hr & _ & Hh & Hc & _ & Hv & _).
+    { intros g w Hg. discriminate Hg. }
+    exists s0, n, v', s', W', st'. auto.
+  Qed.
+
+  Example end_to_end : exists s0 n v' s' W' st',
+    init_state (generate true SV0 None e0 ++ [IRet]) [] [] = Next s0 /\
+    run n s0 = Done v' s' /\ heap s' = wh W' /\ vrelW SV0 W' v' expected /\ wc W' = cells st'.
+  Proof. exact (end_to_end_gen e0 expected frag_e0 eval_e0). Qed.
+
+  (** TAIL calls with surplus arguments: ((lambda (f g) (g 7 8 9)) f g) => 7 (UNUSED_REST: TAIL-CALL moves all three
+      arguments, RET pops them by the count in the header), ((lambda (f g) (f 1 2 3)) f g) => (1 2 3) *)
+  Definition e1 : ast := App (Lam 0 [4; 5] None [] [] [] (App (Ref 5 (Local 0)) (ints [7; 8; 9]%Z))) [f_lam; g_lam].
+  Definition e2 : ast := App (Lam 0 [4; 5] None [] [] [] (App (Ref 4 (Local 0)) (ints [1; 2; 3]%Z))) [f_lam; g_lam].
+
+  Example end_to_end_tail_unused : exists s0 n v' s' W' st',
+    init_state (generate true SV0 None e1 ++ [IRet]) [] [] = Next s0 /\
+    run n s0 = Done v' s' /\ heap s' = wh W' /\ vrelW SV0 W' v' (SLit (LInt 7)) /\ wc W' = cells st'.
+  Proof. apply end_to_end_gen; [reflexivity|]. eexists. vm_compute. reflexivity. Qed.
+
+  Example end_to_end_tail_rest : exists s0 n v' s' W' st',
+    init_state (generate true SV0 None e2 ++ [IRet]) [] [] = Next s0 /\
+    run n s0 = Done v' s' /\ heap s' = wh W' /\ vrelW SV0 W' v' (ilist [1; 2; 3]%Z) /\ wc W' = cells st'.
+  Proof. apply end_to_end_gen; [reflexivity|]. eexists. vm_compute. reflexivity. Qed.
+
+  (** observed directly on the model VM: the result is the list (7 4 (1) 1 2 3) laid out in the final heap *)
+  Fixpoint decode (fuel : nat) (h : list hobj) (v : value) : option sval :=
+    match fuel with
+    | 0 => None
+    | S k =>
+        match v with
+        | VLit l => Some (SLit l)
+        | VPair a =>
+            match nth_error h a with
+            | Some (HPair x y) =>
+                match decode k h x, decode k h y with Some p, Some q => Some (SPair p q) | _, _ => None end
+            | _ => None
+            end
+        | _ => None
+        end
+    end.
+
+  Example run_e0 : exists s0 v' s', init_state (generate true SV0 None e0 ++ [IRet]) [] [] = Next s0 /\
+                                    run 400 s0 = Done v' s' /\ decode 20 (heap s') v' = Some expected.
+  Proof.
+    eexists. eexists. eexists. split; [|split].
+    - vm_compute. reflexivity.
+    - vm_compute. reflexivity.
+    - vm_compute. reflexivity.
+  Qed.
+
+  Example run_e1 : exists s0 s', init_state (generate true SV0 None e1 ++ [IRet]) [] [] = Next s0 /\
+                                 run 400 s0 = Done (VLit (LInt 7)) s'.
+  Proof.
+    eexists. eexists. split.
+    - vm_compute. reflexivity.
+    - vm_compute. reflexivity.
+  Qed.
+
+  Example run_e2 : exists s0 v' s', init_state (generate true SV0 None e2 ++ [IRet]) [] [] = Next s0 /\
+                                    run 400 s0 = Done v' s' /\ decode 20 (heap s') v' = Some (ilist [1; 2; 3]%Z).
+  Proof.
+    eexists. eexists. eexists. split; [|split].
+    - vm_compute. reflexivity.
+    - vm_compute. reflexivity.
+    - vm_compute. reflexivity.
+  Qed.
+End ExampleRest.
